@@ -1,6 +1,22 @@
 import XpmVerif.Model.Sched
-/-! Proofs about the scheduler model `Model/Sched.lean` for property C06 (truthful, stable final states;
-    the waiter returns only when everything is final).  Invariants preserved by every callback / every event. -/
+import XpmVerif.Proofs.SchedCap
+/-! Proofs about the scheduler model `Model/Sched.lean` for property C06 (truthful, stable final states; the
+    waiter returns only when everything is final; deadlock freedom at quiescence).
+
+    `Reachable fl totals s`: states reachable from `St.init totals` by any list of well-formed events (`EvOK`).
+    Every invariant is preserved by every callback (`St.runCb`), hence by `step`, by the steps inside `submit`
+    and by every event.  Layers (each `reachable_inv…`):
+    * `InvA` — `Inv1` control token (exactly one continuation per live coroutine, of the sort its pc asks for),
+      `JL` record-local truthfulness (`JLocal`), blank future records;                     flag: readyGuarded
+    * `InvB` — no registration pending between events, `unfinished` = number of live coroutines (phases `PhA`/`PhB`
+      inside `submit`);                                                                   flags: + resubmitRegisters
+    * `InvS` — static well-formedness (acyclic origins, `eff d ≤ d`, registry);            no flag
+    * `InvC` — + `InvF`, `InvD`: counter `unsat` (A), recorded OK/FAIL is the truth about the origin, failed
+      dependency ⇒ never launched, checks refer to started jobs;                           flag: readyGuarded
+    * `InvE` — + `JQs`: who sleeps is WAITING with unsat > 0 (B), holders have a thread (G);  flag: + abortRechecks
+    * `InvG` — + `InvQF`: no lost notification (C, D);                                     same flags
+    * `InvH` — every dependency points to a scheduled job;                                 flags: readyGuarded, resubmitRegisters
+    Deadlock freedom `quiescent_final` combines them with the capacity invariant of `Proofs/SchedCap.lean` (C08). -/
 set_option linter.unusedSimpArgs false
 set_option linter.unusedVariables false
 namespace XpmVerif.SchedFinal
@@ -3148,14 +3164,16 @@ structure Shape (s s' : St) (x : Nat) (jb : Job) (cbs : List Cb) : Prop where
   ready : s'.ready = s.ready ++ cbs
   jobDeps : s'.jobDeps = s.jobDeps
   tokDeps : s'.tokDeps = s.tokDeps
+  avail : s'.avail = s.avail
 
 theorem Shape.put (s : St) (x : Nat) (jb : Job) (cbs : List Cb) (ths : List (TK × Nat)) :
-    Shape s (s.put x jb cbs ths) x jb cbs := ⟨rfl, rfl, rfl, rfl⟩
+    Shape s (s.put x jb cbs ths) x jb cbs := ⟨rfl, rfl, rfl, rfl, rfl⟩
 
 /-- a shape after a shape on the same job. -/
 theorem Shape.trans {a b c : St} {x : Nat} {jb1 jb2 : Job} {c1 c2 : List Cb} (h1 : Shape a b x jb1 c1)
     (h2 : Shape b c x jb2 c2) : Shape a c x jb2 (c1 ++ c2) := by
-  refine ⟨?_, by rw [h2.ready, h1.ready, List.append_assoc], h2.jobDeps.trans h1.jobDeps, h2.tokDeps.trans h1.tokDeps⟩
+  refine ⟨?_, by rw [h2.ready, h1.ready, List.append_assoc], h2.jobDeps.trans h1.jobDeps, h2.tokDeps.trans h1.tokDeps,
+    h2.avail.trans h1.avail⟩
   rw [h2.jobs, h1.jobs]
   funext i
   simp only [upd]
@@ -3171,7 +3189,7 @@ theorem shape_invD {s s' : St} {x : Nat} {jb : Job} {cbs : List Cb} (hs : Shape 
 theorem finish_shape (s : St) (x : Nat) : Shape s (s.finish x) x { (s.jobs x) with pc := .doneHandler } [] := by
   unfold St.finish
   simp only
-  split <;> exact ⟨rfl, by simp, rfl, rfl⟩
+  split <;> exact ⟨rfl, by simp, rfl, rfl, rfl⟩
 
 theorem loopHead_shape (s : St) (x : Nat) : Shape s (s.loopHead x) x (loopHeadJ (s.jobs x)) [] := by
   unfold St.loopHead loopHeadJ
@@ -3179,8 +3197,8 @@ theorem loopHead_shape (s : St) (x : Nat) : Shape s (s.loopHead x) x (loopHeadJ 
   split
   · exact finish_shape s x
   · split
-    · split <;> exact ⟨rfl, by simp, rfl, rfl⟩
-    · exact ⟨rfl, by simp, rfl, rfl⟩
+    · split <;> exact ⟨rfl, by simp, rfl, rfl, rfl⟩
+    · exact ⟨rfl, by simp, rfl, rfl, rfl⟩
 
 /-- a put on `x` followed by `loopHead`. -/
 theorem put_loopHead_shape (s : St) (x : Nat) (jb : Job) (cbs : List Cb) (ths : List (TK × Nat)) :
@@ -3371,6 +3389,35 @@ theorem startRec_jlocal {jb : Job} (hL : JLocal jb) (hp : jb.pc = .none ∨ jb.p
   rw [h1, h2, h3, h4]
   rcases hp with hp | hp <;> rcases h5 with h5 | h5 <;> simp only [hp, h5, pcEnd, pcEarly, pcRun] at hL ⊢ <;> grind
 
+theorem startQ_len {s s' : St} {x : Nat} (hq : StartQ s s' x) :
+    (s'.jobs x).deps.length = (s.jobs x).deps.length ∧
+    ∀ i, (depAt (s'.jobs x) i).origin = (depAt (s.jobs x) i).origin :=
+  sameConst_origin hq.2.2.2.2.2.2.2.2.2
+
+theorem startQ_regOne (s s' : St) (x d : Nat) (hd : d < (s.jobs x).deps.length) (hq : StartQ s s' x) :
+    StartQ s (regOne s' x d) x := by
+  have hlen := startQ_len hq
+  obtain ⟨hD, hN, hSt, hLs, hF⟩ := hq
+  have hjobs := (regOne_frame s' x d).1
+  refine ⟨regOne_invD s' x d ⟨hSt, by rw [hlen.1]; exact hd⟩ hD, noDeps_same hjobs hN, ?_, ?_,
+    hF.trans (regOne_frameF s' x d x)⟩
+  · unfold Started; rw [hjobs]; exact hSt
+  · rw [hjobs]; exact hLs
+
+theorem startQ_check (fl : Flags) (hg : fl.readyGuarded = true) (s s' : St) (x d : Nat) (hS : InvS s)
+    (hd : d < (s.jobs x).deps.length) (hq : StartQ s s' x) : StartQ s (s'.check fl x d) x := by
+  have hlen := startQ_len hq
+  obtain ⟨hD, hN, hSt, hLs, hF⟩ := hq
+  have hd' : d < (s'.jobs x).deps.length := by rw [hlen.1]; exact hd
+  refine ⟨check_invD fl hg s' x d hLs hD ⟨hSt, hd'⟩, check_noDeps fl s' x d x hd' ?_ hN, ?_,
+    check_jl fl hg s' x d x hLs, hF.trans (check_frame fl s' x d)⟩
+  · intro ho
+    rw [hlen.2] at ho
+    exact Nat.lt_irrefl x (hS.acyclic x d x hd ho)
+  · unfold Started
+    rw [check_job]
+    exact (depChanged_mono fl hg _ _ _).1 hSt
+
 theorem regPhase_Q (fl : Flags) (hg : fl.readyGuarded = true) (s : St) (x : Nat)
     (hL : JLocal (s.jobs x)) (hS : InvS s) (h : InvD s) (hu : (s.jobs x).state = .unscheduled) :
     StartQ s (regPhase fl s x) x := by
@@ -3396,30 +3443,9 @@ theorem regPhase_Q (fl : Flags) (hg : fl.readyGuarded = true) (s : St) (x : Nat)
       · simp only [put_jobs, upd_same]
         exact startRec_jlocal hL hp _ rfl rfl rfl rfl (Or.inl rfl)
       · exact (Frame.put s x (startRec (s.jobs x)) [] [] ⟨rfl, rfl, rfl, rfl⟩).trans (Frame.put (s.put x (startRec (s.jobs x))) x _ [] [] (by rw [put_jobs, upd_same]; exact ⟨rfl, rfl, rfl, rfl⟩))
-    have hlenQ : ∀ s', StartQ s s' x → (s'.jobs x).deps.length = (s.jobs x).deps.length ∧
-        ∀ i, (depAt (s'.jobs x) i).origin = (depAt (s.jobs x) i).origin :=
-      fun s' hq => sameConst_origin hq.2.2.2.2.2.2.2.2.2
     refine registerDeps_ind (fun s' => StartQ s s' x) fl x (s.jobs x).deps.length ?_ ?_ _ 0 _ (Nat.zero_add _) hQ1
-    · intro s' d hd hq
-      obtain ⟨hD, hN, hSt, hLs, hF⟩ := hq
-      have hlen := hlenQ s' ⟨hD, hN, hSt, hLs, hF⟩
-      have hjobs := (regOne_frame s' x d).1
-      refine ⟨regOne_invD s' x d ⟨hSt, by rw [hlen.1]; exact hd⟩ hD, noDeps_same hjobs hN, ?_, ?_,
-        hF.trans (regOne_frameF s' x d x)⟩
-      · unfold Started; rw [hjobs]; exact hSt
-      · rw [hjobs]; exact hLs
-    · intro s' d hd hq
-      obtain ⟨hD, hN, hSt, hLs, hF⟩ := hq
-      have hlen := hlenQ s' ⟨hD, hN, hSt, hLs, hF⟩
-      have hd' : d < (s'.jobs x).deps.length := by rw [hlen.1]; exact hd
-      refine ⟨check_invD fl hg s' x d hLs hD ⟨hSt, hd'⟩, check_noDeps fl s' x d x hd' ?_ hN, ?_,
-        check_jl fl hg s' x d x hLs, hF.trans (check_frame fl s' x d)⟩
-      · intro ho
-        rw [hlen.2] at ho
-        exact Nat.lt_irrefl x (hS.acyclic x d x hd ho)
-      · unfold Started
-        rw [check_job]
-        exact (depChanged_mono fl hg _ _ _).1 hSt
+    · intro s' d hd hq; exact startQ_regOne s s' x d hd hq
+    · intro s' d hd hq; exact startQ_check fl hg s s' x d hS hd hq
 
 theorem startJob_invD (fl : Flags) (hg : fl.readyGuarded = true) (s : St) (x : Nat)
     (hL : JLocal (s.jobs x)) (hS : InvS s) (h : InvD s) (hu : (s.jobs x).state = .unscheduled) :
@@ -3892,6 +3918,1756 @@ theorem reachable_invC {fl : Flags} (hg : fl.readyGuarded = true) {totals : List
   induction h with
   | init => exact init_invC totals
   | next _ hok ih => exact apply_invC fl hg _ _ hok ih
+
+
+
+/-! ## fourth layer: who sleeps, who holds (invariants B, G, H of the design) -/
+
+/-- structural principle for `dependencychanged`: it is a composition of a counter update, at most two
+    "assign state, then `event.set()`" steps, and the update of the dependency list. -/
+theorem depChanged_ind (P : Job → Prop) (fl : Flags) (jb : Job) (d : Nat) (st : DS)
+    (h1 : ∀ x u, P x → P { x with unsat := u })
+    (h2 : ∀ x, st = .fail → x.state.finished = false → P x → P (eventSet { x with state := .error, failedDep := true }).1)
+    (h3 : ∀ x, x.unsat = 0 → (fl.readyGuarded = false ∨ x.state = .waiting) → P x →
+      P (eventSet { x with state := .ready }).1)
+    (h4 : ∀ x dps, P x → P { x with deps := dps })
+    (h : P jb) : P (depChanged fl jb d st).1 := by
+  unfold depChanged
+  simp only
+  split
+  · exact h
+  · have ha := h1 jb (jb.unsat - (val st - val (jb.deps.getD d default).cur)) h
+    split
+    · rename_i hc
+      have hb := h2 _ hc.1 (by simpa using hc.2) ha
+      split
+      · rename_i hc2
+        apply h4
+        exact h3 _ hc2.1 (by simpa using hc2.2) hb
+      · apply h4; exact hb
+    · split
+      · rename_i hc2
+        apply h4
+        exact h3 _ hc2.1 (by simpa using hc2.2) ha
+      · apply h4; exact ha
+
+/-- `dependencychanged` that leaves the event unset did not touch state, event, sleeper. -/
+theorem depChanged_quiet (fl : Flags) (jb : Job) (d : Nat) (st : DS)
+    (h : (depChanged fl jb d st).1.event = false) :
+    (depChanged fl jb d st).1.state = jb.state ∧ (depChanged fl jb d st).1.sleeping = jb.sleeping ∧
+    jb.event = false := by
+  have e := fun jb => (eventSet_frame jb).2.2.2.2.2.2.2.2.2.2
+  refine depChanged_ind (fun r => r.event = false → r.state = jb.state ∧ r.sleeping = jb.sleeping ∧ jb.event = false)
+    fl jb d st (fun x u hx => hx) ?_ ?_ (fun x dps hx => hx) (fun hx => ⟨rfl, rfl, hx⟩) h
+  · intro x _ _ _ hev; rw [e] at hev; cases hev
+  · intro x _ _ _ hev; rw [e] at hev; cases hev
+
+/-- a sleeper is registered only on an unset event. -/
+def SE (jb : Job) : Prop := jb.sleeping = true → jb.event = false
+
+theorem eventSet_SE (jb : Job) (h : SE jb) : SE (eventSet jb).1 := by
+  unfold eventSet SE at *
+  split
+  · exact h
+  · split
+    · simp
+    · rename_i h2; intro hs; exact absurd hs h2
+
+theorem depChanged_SE (fl : Flags) (jb : Job) (d : Nat) (st : DS) (h : SE jb) : SE (depChanged fl jb d st).1 :=
+  depChanged_ind SE fl jb d st (fun x u hx => hx) (fun x _ _ hx => eventSet_SE _ hx) (fun x _ _ hx => eventSet_SE _ hx)
+    (fun x dps hx => hx) h
+
+/-- a READY record has its event set (valid while the coroutine has not yet looked at it). -/
+def RE (jb : Job) : Prop := jb.state = .ready → jb.event = true
+
+theorem depChanged_RE (fl : Flags) (hg : fl.readyGuarded = true) (jb : Job) (d : Nat) (st : DS) (h : RE jb) :
+    RE (depChanged fl jb d st).1 := by
+  have e := fun jb => eventSet_frame jb
+  refine depChanged_ind RE fl jb d st (fun x u hx => hx) ?_ ?_ (fun x dps hx => hx) h
+  · intro x _ _ _ _; exact (e _).2.2.2.2.2.2.2.2.2.2
+  · intro x _ _ _ _; exact (e _).2.2.2.2.2.2.2.2.2.2
+
+
+
+/-- after a real change, a record left WAITING still has unsatisfied dependencies
+    (otherwise the second test of `dependencychanged` made it READY). -/
+theorem depChanged_waitUnsat (fl : Flags) (jb : Job) (d : Nat) (st : DS) (hne : st ≠ (depAt jb d).cur)
+    (hw : (depChanged fl jb d st).1.state = .waiting) : (depChanged fl jb d st).1.unsat ≠ 0 := by
+  have e := fun jb => eventSet_frame jb
+  unfold depAt at hne
+  unfold depChanged at hw ⊢
+  simp only [hne, if_false] at hw ⊢
+  split at hw
+  · split at hw
+    · simp only [e] at hw; cases hw
+    · simp only [e] at hw; cases hw
+  · rename_i h1
+    simp only [h1, if_false]
+    split at hw
+    · simp only [e] at hw; cases hw
+    · rename_i h2
+      simp only [h2, if_false]
+      simp only at hw h2
+      intro hz
+      exact h2 ⟨hz, Or.inr hw⟩
+
+/-- a failing dependency takes a non-final record out of its state. -/
+theorem depChanged_fail (fl : Flags) (jb : Job) (d : Nat) (hne : DS.fail ≠ (depAt jb d).cur)
+    (hnf : jb.state.finished = false) :
+    (depChanged fl jb d .fail).1.state = .error ∨ (depChanged fl jb d .fail).1.state = .ready := by
+  have e := fun jb => eventSet_frame jb
+  unfold depAt at hne
+  unfold depChanged
+  simp only [hne, if_false, hnf]
+  simp only [Bool.not_false, and_self, if_true]
+  split
+  · right; simp only [e]
+  · left; simp only [e]
+
+/-- sleeping / waiting facts of a record (everything of the fourth layer but `held`). -/
+structure JQ' (jb : Job) : Prop where
+  se : SE jb
+  waitState : jb.pc = .evtWait → jb.state = .waiting ∨ jb.state = .ready ∨ jb.state = .error
+  evtClear : jb.pc = .evtWait → jb.event = false → jb.state = .waiting
+  waitUnsat : jb.state = .waiting → jb.unsat ≠ 0
+  waitNoFail : jb.state = .waiting → ∀ i, i < jb.deps.length → (depAt jb i).cur ≠ .fail
+
+/-- invariant G: locks are held only between a start and its lock-release segment. -/
+def HeldPc (jb : Job) : Prop := jb.held ≠ [] → jb.pc = .lockExitAbort ∨ jb.pc = .lockExitRun ∨ jb.pc = .codeWait
+
+def JQ (jb : Job) : Prop := JQ' jb ∧ HeldPc jb
+
+theorem dc_waitUnsat (fl : Flags) (jb : Job) (d : Nat) (st : DS) (h : jb.state = .waiting → jb.unsat ≠ 0)
+    (hw : (depChanged fl jb d st).1.state = .waiting) : (depChanged fl jb d st).1.unsat ≠ 0 := by
+  rcases depChanged_deps fl jb d st with ⟨_, e⟩ | ⟨hne, _, _⟩
+  · rw [e] at hw ⊢; exact h hw
+  · exact depChanged_waitUnsat fl jb d st hne hw
+
+theorem dc_state_back (fl : Flags) (hg : fl.readyGuarded = true) (jb : Job) (d : Nat) (st : DS)
+    (hw : (depChanged fl jb d st).1.state = .waiting) : jb.state = .waiting := by
+  have f5 := (depChanged_state fl jb d st).2.2.2.2.2
+  simp only [hg, true_implies] at f5
+  rcases f5 with ⟨a, _⟩ | ⟨_, _, a, _⟩ | ⟨a, _⟩
+  · rw [← a]; exact hw
+  · rw [a] at hw; cases hw
+  · rw [a] at hw; cases hw
+
+theorem dc_waitNoFail (fl : Flags) (hg : fl.readyGuarded = true) (jb : Job) (d : Nat) (st : DS)
+    (hd : d < jb.deps.length)
+    (h : jb.state = .waiting → ∀ i, i < jb.deps.length → (depAt jb i).cur ≠ .fail)
+    (hw : (depChanged fl jb d st).1.state = .waiting) :
+    ∀ i, i < (depChanged fl jb d st).1.deps.length → (depAt (depChanged fl jb d st).1 i).cur ≠ .fail := by
+  have hA := depChanged_depAt fl jb d st hd
+  have hjw := dc_state_back fl hg jb d st hw
+  intro i hi
+  rw [hA.1] at hi
+  by_cases hid : i = d
+  · subst hid
+    rw [hA.2.2.2]
+    intro hst; subst hst
+    by_cases hne : DS.fail = (depAt jb i).cur
+    · exact h hjw i hi hne.symm
+    · rcases depChanged_fail fl jb i hne (by rw [hjw]; rfl) with e | e <;> rw [e] at hw <;> cases hw
+  · rw [hA.2.2.1 i hid]; exact h hjw i hi
+
+theorem dc_state3 (fl : Flags) (hg : fl.readyGuarded = true) (jb : Job) (d : Nat) (st : DS)
+    (h : jb.state = .waiting ∨ jb.state = .ready ∨ jb.state = .error) :
+    (depChanged fl jb d st).1.state = .waiting ∨ (depChanged fl jb d st).1.state = .ready ∨
+    (depChanged fl jb d st).1.state = .error := by
+  have f5 := (depChanged_state fl jb d st).2.2.2.2.2
+  simp only [hg, true_implies] at f5
+  rcases f5 with ⟨a, _⟩ | ⟨_, _, a, _⟩ | ⟨a, _⟩
+  · rw [a]; exact h
+  · exact Or.inr (Or.inr a)
+  · exact Or.inr (Or.inl a)
+
+theorem depChanged_jq' (fl : Flags) (hg : fl.readyGuarded = true) (jb : Job) (d : Nat) (st : DS)
+    (hd : d < jb.deps.length) (h : JQ' jb) : JQ' (depChanged fl jb d st).1 := by
+  have f1 := (depChanged_state fl jb d st).1
+  refine ⟨depChanged_SE fl jb d st h.se, ?_, ?_, dc_waitUnsat fl jb d st h.waitUnsat,
+    dc_waitNoFail fl hg jb d st hd h.waitNoFail⟩
+  · intro hp; rw [f1] at hp; exact dc_state3 fl hg jb d st (h.waitState hp)
+  · intro hp he; rw [f1] at hp
+    obtain ⟨q1, _, q3⟩ := depChanged_quiet fl jb d st he
+    rw [q1]; exact h.evtClear hp q3
+
+theorem depChanged_heldPc (fl : Flags) (jb : Job) (d : Nat) (st : DS) (h : HeldPc jb) :
+    HeldPc (depChanged fl jb d st).1 := by
+  have f := depChanged_state fl jb d st
+  unfold HeldPc; rw [f.1, f.2.2.2.2.1]; exact h
+
+/-- `loopHead` establishes the sleeping / waiting facts. -/
+theorem loopHeadJ_jq (jbw : Job) (hheld : jbw.held = [])
+    (hst : jbw.state = .waiting ∨ jbw.state = .ready ∨ jbw.state = .error ∨ jbw.state = .done)
+    (hre : RE jbw) (hse : SE jbw) (hwu : jbw.state = .waiting → jbw.unsat ≠ 0)
+    (hwf : jbw.state = .waiting → ∀ i, i < jbw.deps.length → (depAt jbw i).cur ≠ .fail) : JQ (loopHeadJ jbw) := by
+  have hw : jbw.state.finished = false → jbw.state ≠ .ready → jbw.state = .waiting := by
+    intro hf hr
+    rcases hst with h | h | h | h
+    · exact h
+    · exact absurd h hr
+    · rw [h] at hf; cases hf
+    · rw [h] at hf; cases hf
+  unfold loopHeadJ
+  split
+  · exact ⟨⟨hse, fun hp => (by cases hp), fun hp => (by cases hp), hwu, hwf⟩, fun hh => absurd hheld hh⟩
+  · rename_i hf
+    have hf' : jbw.state.finished = false := by simpa using hf
+    split
+    · split
+      · refine ⟨⟨fun _ => rfl, fun hp => (by cases hp), fun hp => (by cases hp), hwu, hwf⟩, fun hh => absurd hheld hh⟩
+      · rename_i hr
+        refine ⟨⟨fun _ => rfl, fun _ => ?_, fun _ _ => hw hf' hr, hwu, hwf⟩, fun hh => absurd hheld hh⟩
+        exact Or.inl (hw hf' hr)
+    · rename_i he
+      have hr : jbw.state ≠ .ready := fun hr => he (hre hr)
+      refine ⟨⟨fun _ => (by simpa using he), fun _ => Or.inl (hw hf' hr), fun _ _ => hw hf' hr, hwu, hwf⟩,
+        fun hh => absurd hheld hh⟩
+
+
+
+theorem acquireAll_lt (s : St) (x k d : Nat) : ∀ e, (St.acquireAll s x k d).2 = some e → e < d + k :=
+  fun e he => ((acquireAll_ind (fun _ => True) x (d + k) (fun _ _ _ _ _ => trivial) k d s rfl trivial).2 e he).1
+
+theorem heldPc_nil {jb : Job} (h : HeldPc jb) (hp : jb.pc ≠ .lockExitAbort ∧ jb.pc ≠ .lockExitRun ∧ jb.pc ≠ .codeWait) :
+    jb.held = [] := by
+  cases hh : jb.held with
+  | nil => rfl
+  | cons a l =>
+    have := h (by rw [hh]; simp)
+    rcases this with e | e | e
+    · exact absurd e hp.1
+    · exact absurd e hp.2.1
+    · exact absurd e hp.2.2
+
+/-- no recorded failure among the dependencies of a READY / RUNNING record. -/
+theorem jdeep_ready_nofail_all {jb : Job} (h : JDeep jb) (hr : jb.state = .ready ∨ jb.state = .running) :
+    ∀ i, i < jb.deps.length → (depAt jb i).cur ≠ .fail := by
+  intro i hi
+  cases hj : isJobO (depAt jb i).origin
+  · exact h.tokNoFail i hi hj
+  · rw [h.readyDeps hr i hi hj]; simp
+
+/-- the record of `x` while its first segment registers the dependencies. -/
+structure RQ (jb : Job) : Prop where
+  held : jb.held = []
+  st3 : jb.state = .waiting ∨ jb.state = .ready ∨ jb.state = .error
+  re : RE jb
+  se : SE jb
+  waitUnsat : jb.state = .waiting → jb.unsat ≠ 0
+  waitNoFail : jb.state = .waiting → ∀ i, i < jb.deps.length → (depAt jb i).cur ≠ .fail
+
+theorem depChanged_rq (fl : Flags) (hg : fl.readyGuarded = true) (jb : Job) (d : Nat) (st : DS)
+    (hd : d < jb.deps.length) (h : RQ jb) : RQ (depChanged fl jb d st).1 :=
+  ⟨by rw [(depChanged_state fl jb d st).2.2.2.2.1]; exact h.held, dc_state3 fl hg jb d st h.st3,
+   depChanged_RE fl hg jb d st h.re, depChanged_SE fl jb d st h.se, dc_waitUnsat fl jb d st h.waitUnsat,
+   dc_waitNoFail fl hg jb d st hd h.waitNoFail⟩
+
+theorem regPhase_rq (fl : Flags) (hg : fl.readyGuarded = true) (s : St) (x : Nat) (hJ : JDeep (s.jobs x))
+    (hQ : JQ (s.jobs x)) (hu : (s.jobs x).state = .unscheduled) : RQ ((regPhase fl s x).jobs x) := by
+  have hp := hJ.fresh hu
+  have hheld : (s.jobs x).held = [] :=
+    heldPc_nil hQ.2 (by rcases hp with e | e <;> rw [e] <;> exact ⟨fun e => (by cases e), fun e => (by cases e), fun e => (by cases e)⟩)
+  obtain ⟨_, _, p3⟩ := hJ.pristine hu
+  unfold regPhase
+  split
+  · simp only [put_jobs, upd_same]
+    exact ⟨hheld, Or.inr (Or.inl rfl), fun _ => rfl, fun hs => (by cases hs), fun hw => (by cases hw), fun hw => (by cases hw)⟩
+  · rename_i hne
+    have hlen : (s.jobs x).deps.length ≠ 0 := by
+      intro h0; apply hne; simp [List.length_eq_zero_iff.1 h0]
+    have h0 : RQ (startRecDeps (s.jobs x)) := by
+      refine ⟨hheld, Or.inl rfl, fun hr => (by cases hr), fun hs => (by cases hs), fun _ => ?_, fun _ i hi => ?_⟩
+      · show ((s.jobs x).deps.length : Int) ≠ 0
+        omega
+      · have := p3 i hi
+        show (depAt (s.jobs x) i).cur ≠ .fail
+        rw [this]; simp
+    refine (registerDeps_ind (fun s' => RQ (s'.jobs x) ∧ (s'.jobs x).deps.length = (s.jobs x).deps.length) fl x
+      (s.jobs x).deps.length ?_ ?_ _ 0 _ (Nat.zero_add _) ⟨by simpa using h0, by simp [startRecDeps, startRec]⟩).1
+    · intro s' d _ h'; rw [(regOne_frame s' x d).1]; exact h'
+    · intro s' d hd h'
+      rw [check_job]
+      exact ⟨depChanged_rq fl hg _ d _ (by rw [h'.2]; exact hd) h'.1,
+        by rw [(depChanged_depAt fl _ d _ (by rw [h'.2]; exact hd)).1]; exact h'.2⟩
+
+theorem startJob_job (fl : Flags) (s : St) (x : Nat) :
+    (s.startJob fl x).jobs x = loopHeadJ (if ((regPhase fl s x).jobs x).marker
+      then { ((regPhase fl s x).jobs x) with state := .done } else (regPhase fl s x).jobs x) := by
+  rw [startJob_eq, loopHead_job]
+  split <;> simp
+
+theorem startJob_jq (fl : Flags) (hg : fl.readyGuarded = true) (s : St) (x : Nat) (hJ : JDeep (s.jobs x))
+    (hQ : JQ (s.jobs x)) (hu : (s.jobs x).state = .unscheduled) : JQ ((s.startJob fl x).jobs x) := by
+  rw [startJob_job]
+  have h := regPhase_rq fl hg s x hJ hQ hu
+  generalize (regPhase fl s x).jobs x = jb2 at h
+  split
+  · exact loopHeadJ_jq _ h.held (Or.inr (Or.inr (Or.inr rfl))) (fun hr => (by cases hr)) h.se
+      (fun hw => (by cases hw)) (fun hw => (by cases hw))
+  · refine loopHeadJ_jq _ h.held ?_ h.re h.se h.waitUnsat h.waitNoFail
+    rcases h.st3 with e | e | e
+    · exact Or.inl e
+    · exact Or.inr (Or.inl e)
+    · exact Or.inr (Or.inr (Or.inl e))
+
+theorem wake_jq (fl : Flags) (s : St) (x : Nat) (hQ : JQ (s.jobs x)) (hpc : (s.jobs x).pc = .evtWait) :
+    JQ ((s.runCb fl (.wake x)).jobs x) := by
+  have hheld : (s.jobs x).held = [] :=
+    heldPc_nil hQ.2 (by rw [hpc]; exact ⟨fun e => (by cases e), fun e => (by cases e), fun e => (by cases e)⟩)
+  simp only [St.runCb]
+  split
+  · rename_i hr
+    simp only [put_jobs, upd_same]
+    exact ⟨⟨fun _ => rfl, fun hp => (by cases hp), fun hp => (by cases hp), hQ.1.waitUnsat, hQ.1.waitNoFail⟩,
+      fun hh => absurd hheld hh⟩
+  · rename_i hr
+    rw [loopHead_job]
+    simp only [put_jobs, upd_same]
+    refine loopHeadJ_jq _ hheld ?_ (fun h => absurd h hr) (fun _ => rfl) hQ.1.waitUnsat hQ.1.waitNoFail
+    rcases hQ.1.waitState hpc with e | e | e
+    · exact Or.inl e
+    · exact Or.inr (Or.inl e)
+    · exact Or.inr (Or.inr (Or.inl e))
+
+theorem jq'_held {jb : Job} (hl : List Nat) (h : JQ' jb) : JQ' { jb with held := hl } :=
+  ⟨h.se, h.waitState, h.evtClear, h.waitUnsat, h.waitNoFail⟩
+
+theorem enterTail_jq (fl : Flags) (hg : fl.readyGuarded = true) (r : St × Option Nat) (x : Nat)
+    (hJ : ∀ jb, jb = (enterTail fl r x).jobs x → JDeep jb) (hQ : JQ' (r.1.jobs x))
+    (hlt : ∀ e, r.2 = some e → e < (r.1.jobs x).deps.length) : JQ ((enterTail fl r x).jobs x) := by
+  have hJ' := hJ _ rfl
+  revert hJ'
+  obtain ⟨s1, fa⟩ := r
+  unfold enterTail
+  cases fa with
+  | some d =>
+    simp only [put_jobs, upd_same]
+    intro hJ'
+    have hr := hJ'.lockReady (Or.inr rfl)
+    simp only at hr
+    have hc : JQ' ((s1.check fl x d).jobs x) := by
+      rw [check_job]; exact depChanged_jq' fl hg _ d _ (hlt d rfl) hQ
+    refine ⟨⟨hc.se, fun hp => (by cases hp), fun hp => (by cases hp), fun hw => ?_, fun hw => ?_⟩, fun _ => Or.inl rfl⟩
+    · simp only at hw; rw [hr] at hw; cases hw
+    · simp only at hw; rw [hr] at hw; cases hw
+  | none =>
+    simp only [put_jobs, upd_same]
+    intro _
+    exact ⟨⟨hQ.se, fun hp => (by cases hp), fun hp => (by cases hp), fun hw => (by cases hw), fun hw => (by cases hw)⟩,
+      fun _ => Or.inr (Or.inl rfl)⟩
+
+theorem abortTail_jq (fl : Flags) (ha : fl.abortRechecks = true) (s1 : St) (x : Nat) (hJ : JDeep (s1.jobs x))
+    (hQ : JQ' (s1.jobs x)) (hheld : (s1.jobs x).held = []) (hpc : (s1.jobs x).pc = .lockExitAbort) :
+    JQ ((abortTail fl s1 x).jobs x) := by
+  have hr := hJ.lockReady (Or.inr hpc)
+  have hnf := jdeep_ready_nofail_all hJ (Or.inl hr)
+  unfold abortTail
+  simp only
+  rw [loopHead_job]
+  simp only [put_jobs, upd_same]
+  have e := eventSet_frame { (s1.jobs x) with state := JS.ready }
+  split
+  · refine loopHeadJ_jq _ (by rw [e.2.2.2.2.2.2.2.1]; exact hheld) (Or.inr (Or.inl e.2.1))
+      (fun _ => e.2.2.2.2.2.2.2.2.2.2) (eventSet_SE _ hQ.se) (fun hw => ?_) (fun hw => ?_)
+    · rw [e.2.1] at hw; cases hw
+    · rw [e.2.1] at hw; cases hw
+  · rename_i hc
+    refine loopHeadJ_jq _ hheld (Or.inl rfl) (fun h => (by cases h)) hQ.se (fun _ => ?_) (fun _ => hnf)
+    intro hz
+    exact hc ⟨ha, hz⟩
+
+theorem codeTail_jq (s1 : St) (x : Nat) (hQ : JQ' (s1.jobs x)) (hheld : (s1.jobs x).held = []) :
+    JQ ((codeTail s1 x).jobs x) := by
+  unfold codeTail
+  rw [finish_job]
+  simp only [put_jobs, upd_same]
+  refine ⟨⟨hQ.se, fun hp => (by cases hp), fun hp => (by cases hp), fun hw => ?_, fun hw => ?_⟩, fun hh => absurd hheld hh⟩
+  · simp only at hw; split at hw <;> cases hw
+  · simp only at hw; split at hw <;> cases hw
+
+theorem resume_jq (fl : Flags) (hg : fl.readyGuarded = true) (ha : fl.abortRechecks = true) (s : St) (x : Nat)
+    (hJ : JDeep (s.jobs x)) (hJ' : JDeep ((s.resume fl x).jobs x)) (hQ : JQ (s.jobs x)) :
+    JQ ((s.resume fl x).jobs x) := by
+  cases hp : (s.jobs x).pc with
+  | lockEnter =>
+    rw [resume_lockEnter fl s x hp] at hJ' ⊢
+    obtain ⟨hl, e⟩ := acquireAll_job s x (s.jobs x).deps.length 0
+    refine enterTail_jq fl hg _ x (fun jb hjb => hjb ▸ hJ') (by rw [e]; exact jq'_held hl hQ.1) ?_
+    intro d hd
+    rw [e]
+    simpa using acquireAll_lt s x _ 0 d hd
+  | lockExitAbort =>
+    rw [resume_lockExitAbort fl s x hp]
+    refine abortTail_jq fl ha _ x ?_ ?_ ?_ ?_ <;> rw [releaseAll_job]
+    · exact jdeep_held [] hJ
+    · exact jq'_held [] hQ.1
+    · exact hp
+  | lockExitRun =>
+    rw [resume_lockExitRun fl s x hp]
+    simp only [put_jobs, upd_same]
+    have hr := hJ.runRunning (by rw [hp]; rfl)
+    exact ⟨⟨hQ.1.se, fun hp => (by cases hp), fun hp => (by cases hp), hQ.1.waitUnsat, hQ.1.waitNoFail⟩,
+      fun _ => Or.inr (Or.inr rfl)⟩
+  | codeWait =>
+    rw [resume_codeWait fl s x hp]
+    refine codeTail_jq _ x ?_ ?_ <;> rw [releaseAll_job]
+    · exact jq'_held [] hQ.1
+  | doneHandler =>
+    rw [resume_doneHandler fl s x hp]
+    have hheld : (s.jobs x).held = [] :=
+      heldPc_nil hQ.2 (by rw [hp]; exact ⟨fun e => (by cases e), fun e => (by cases e), fun e => (by cases e)⟩)
+    simp only [doneStep, put_jobs, upd_same]
+    exact ⟨⟨hQ.1.se, fun hp => (by cases hp), fun hp => (by cases hp), hQ.1.waitUnsat, hQ.1.waitNoFail⟩,
+      fun hh => absurd hheld hh⟩
+  | _ => rw [resume_other fl s x (by simp [hp, pcKind])]; exact hQ
+
+
+
+def JQs (s : St) : Prop := ∀ i, JQ (s.jobs i)
+
+theorem runCb_jq (fl : Flags) (hg : fl.readyGuarded = true) (ha : fl.abortRechecks = true) (s : St) (cb : Cb)
+    (rest : List Cb) (hC : InvC s) (hr : s.ready = cb :: rest) (h : JQs s) :
+    JQs (({ s with ready := rest } : St).runCb fl cb) := by
+  intro i
+  have hF := runCb_frame fl ({ s with ready := rest } : St) cb
+  have hD' := (runCb_invD fl hg s cb rest hC.a hC.st hr hC.f hC.d).1
+  have hchk : ∀ j d, DepOK s j d → JQ ((St.check fl ({ s with ready := rest } : St) j d).jobs j) := by
+    intro j d hok
+    rw [check_job]
+    exact ⟨depChanged_jq' fl hg _ d _ hok.2 (h j).1, depChanged_heldPc fl _ d _ (h j).2⟩
+  by_cases hi : i = target cb
+  · subst hi
+    cases cb with
+    | register j => simp only [St.runCb]; rw [(register_jobs fl _ j).1]; exact h _
+    | start j =>
+      have hpc := head_start_pc (s := s) hC.a.ctl hr
+      exact startJob_jq fl hg _ j (hC.d.recs j) (h j) (hC.f j (Or.inr hpc))
+    | wake j => exact wake_jq fl _ j (h j) (head_wake_pc (s := s) hC.a.ctl hr)
+    | resume j => exact resume_jq fl hg ha _ j (hC.d.recs j) (hD'.recs j) (h j)
+    | check j d => exact hchk j d (hC.d.wf.cbOK j d (Or.inl (by rw [hr]; exact List.mem_cons_self ..)))
+    | notifyCheck j d =>
+      rcases notifyCheck_cases fl ({ s with ready := rest } : St) j d with e | e <;> rw [e]
+      · exact hchk j d (hC.d.wf.cbOK j d (Or.inr (by rw [hr]; exact List.mem_cons_self ..)))
+      · exact h j
+    | waiterRun => simp only [St.runCb]; rw [(waiterRun_jobs _).1]; exact h _
+  · rw [hF.2.2.2.2.1 i hi]; exact h i
+
+/-- all step-level layers together. -/
+structure InvE (s : St) : Prop where
+  c : InvC s
+  q : JQs s
+
+theorem step_invE (fl : Flags) (hg : fl.readyGuarded = true) (ha : fl.abortRechecks = true) (s : St) (h : InvE s) :
+    InvE (s.step fl) := by
+  refine ⟨step_invC fl hg s h.c, ?_⟩
+  unfold St.step; split
+  · exact h.q
+  · rename_i cb rest hr; exact runCb_jq fl hg ha s cb rest h.c hr h.q
+
+theorem apply_invE (fl : Flags) (hg : fl.readyGuarded = true) (ha : fl.abortRechecks = true) (s : St) (ev : Ev)
+    (hok : EvOK s ev) (h : InvE s) : InvE (s.apply fl ev) := by
+  cases ev with
+  | step => exact step_invE fl hg ha s h
+  | wait => exact ⟨apply_invC fl hg s .wait hok h.c, h.q⟩
+  | deliver k =>
+    refine ⟨apply_invC fl hg s (.deliver k) hok h.c, ?_⟩
+    simp only [St.apply]; split
+    · exact h.q
+    · exact h.q
+  | submit ident deps code marker =>
+    refine ⟨apply_invC fl hg s _ hok h.c, ?_⟩
+    rw [apply_submit]
+    have hpcn := h.c.a.blank s.n (Nat.le_refl _)
+    have h0 : InvE (submitPre s ident deps code marker) := by
+      refine ⟨submitPre_invC s ident deps code marker hok h.c, ?_⟩
+      intro i
+      by_cases hi : i = s.n
+      · subst hi
+        simp only [submitPre, upd_same]
+        exact ⟨⟨fun hs => (by cases hs), fun hp => (by cases hp), fun hp => (by cases hp), fun hw => (by cases hw),
+          fun hw => (by cases hw)⟩, fun hh => absurd rfl hh⟩
+      · rw [submitPre_jobs_ne _ _ _ _ _ _ hi]; exact h.q i
+    have h1 := steps_ind (fun s' => InvE s' ∧ (s'.jobs s.n).pc = .none) fl
+      (fun s' hs' => ⟨step_invE fl hg ha s' hs'.1, by
+        rw [step_kind0 fl s' hs'.1.c.a.ctl s.n (by rw [hs'.2]; rfl)]; exact hs'.2⟩)
+      (s.ready.length + 1) _ ⟨h0, by simp [submitPre, newJob]⟩
+    generalize St.steps fl (submitPre s ident deps code marker) (s.ready.length + 1) = s2 at h1
+    obtain ⟨hE, hpc⟩ := h1
+    intro i
+    by_cases hi : i = s.n
+    · subst hi
+      have hq := hE.q s.n
+      have hheld : (s2.jobs s.n).held = [] :=
+        heldPc_nil hq.2 (by rw [hpc]; exact ⟨fun e => (by cases e), fun e => (by cases e), fun e => (by cases e)⟩)
+      unfold submitPost
+      split
+      · exact hq
+      · simp only [put_jobs, upd_same]
+        exact ⟨⟨hq.1.se, fun hp => (by cases hp), fun hp => (by cases hp), hq.1.waitUnsat, hq.1.waitNoFail⟩,
+          fun hh => absurd hheld hh⟩
+    · rw [submitPost_jobs_ne _ _ _ hi]; exact hE.q i
+
+theorem init_invE (totals : List Nat) : InvE (St.init totals) :=
+  ⟨init_invC totals, fun i => ⟨⟨fun hs => (by cases hs), fun hp => (by cases hp), fun hp => (by cases hp),
+    fun hw => (by cases hw), fun hw => (by cases hw)⟩, fun hh => absurd rfl hh⟩⟩
+
+theorem reachable_invE {fl : Flags} (hg : fl.readyGuarded = true) (ha : fl.abortRechecks = true)
+    {totals : List Nat} {s : St} (h : Reachable fl totals s) : InvE s := by
+  induction h with
+  | init => exact init_invE totals
+  | next _ hok ih => exact apply_invE fl hg ha _ _ hok ih
+
+
+
+/-! ## fifth layer: no lost notification (invariants C and D of the design) -/
+
+theorem registerDeps_ind2 (P : Nat → St → Prop) (fl : Flags) (j D : Nat)
+    (hstep : ∀ s d, d < D → P d s → P (d + 1) ((regOne s j d).check fl j d)) :
+    ∀ k d s, d + k = D → P d s → P D (St.registerDeps fl s j k d) := by
+  intro k
+  induction k with
+  | zero => intro d s hd h; have : d = D := by omega
+            subst this; exact h
+  | succ k ih =>
+    intro d s hd h
+    rw [registerDeps_succ]
+    exact ih (d + 1) _ (by omega) (hstep s d (by omega) h)
+
+/-- a check of the `i`-th dependency of `j` is queued. -/
+def Pend (s : St) (j i : Nat) : Prop := Cb.check j i ∈ s.ready ∨ Cb.notifyCheck j i ∈ s.ready
+
+/-- the dependency `(j, i)` has been registered with its origin (job `x` is registering: only indices `< d`). -/
+def InScope (s : St) (R : Nat → Nat → Prop) (j i : Nat) : Prop :=
+  Started s j ∧ i < (s.jobs j).deps.length ∧ R j i
+
+/-- no lost notification, for the registered dependencies except the pair `ex` that is about to be checked. -/
+structure InvQ (s : St) (R : Nat → Nat → Prop) (ex : Option (Nat × Nat)) : Prop where
+  tokComplete : ∀ j i t c, InScope s R j i → (depAt (s.jobs j) i).origin = .tok t c → (j, i) ∈ s.tokDeps t
+  jobComplete : ∀ j i o, InScope s R j i → (depAt (s.jobs j) i).origin = .job o → (j, i) ∈ s.jobDeps o
+  tokWait : ∀ j i t c, InScope s R j i → ex ≠ some (j, i) → (depAt (s.jobs j) i).origin = .tok t c →
+    (depAt (s.jobs j) i).cur = .wait → s.avail t < c ∨ Pend s j i
+  jobWait : ∀ j i o r, InScope s R j i → ex ≠ some (j, i) → (depAt (s.jobs j) i).origin = .job o →
+    (depAt (s.jobs j) i).cur = .wait → (s.jobs o).pc = .finished r → Pend s j i
+
+/-- monotone transfer: nothing in scope is added, records look the same, no origin finishes, no token is given back,
+    nothing pending or registered is lost. -/
+theorem invQ_transfer {s s' : St} {R R' : Nat → Nat → Prop} {ex : Option (Nat × Nat)}
+    (hsc : ∀ j i, InScope s' R' j i → InScope s R j i)
+    (hdep : ∀ j i, InScope s' R' j i → depAt (s'.jobs j) i = depAt (s.jobs j) i)
+    (hfin : ∀ o r, (s'.jobs o).pc = .finished r → (s.jobs o).pc = .finished r)
+    (hav : ∀ t, s'.avail t ≤ s.avail t)
+    (hpend : ∀ j i, Pend s j i → Pend s' j i)
+    (htd : ∀ t p, p ∈ s.tokDeps t → p ∈ s'.tokDeps t) (hjd : ∀ o p, p ∈ s.jobDeps o → p ∈ s'.jobDeps o)
+    (h : InvQ s R ex) : InvQ s' R' ex := by
+  refine ⟨?_, ?_, ?_, ?_⟩
+  · intro j i t c hs ho
+    rw [hdep j i hs] at ho
+    exact htd t _ (h.tokComplete j i t c (hsc j i hs) ho)
+  · intro j i o hs ho
+    rw [hdep j i hs] at ho
+    exact hjd o _ (h.jobComplete j i o (hsc j i hs) ho)
+  · intro j i t c hs hex ho hc
+    rw [hdep j i hs] at ho hc
+    rcases h.tokWait j i t c (hsc j i hs) hex ho hc with ha | hp
+    · exact Or.inl (Int.lt_of_le_of_lt (hav t) ha)
+    · exact Or.inr (hpend j i hp)
+  · intro j i o r hs hex ho hc hf
+    rw [hdep j i hs] at ho hc
+    exact hpend j i (h.jobWait j i o r (hsc j i hs) hex ho hc (hfin o r hf))
+
+/-- dropping the exemption when it is not in scope or is known to be fine. -/
+theorem invQ_unexempt {s : St} {R : Nat → Nat → Prop} {p : Nat × Nat} (h : InvQ s R (some p))
+    (htok : ∀ t c, InScope s R p.1 p.2 → (depAt (s.jobs p.1) p.2).origin = .tok t c →
+      (depAt (s.jobs p.1) p.2).cur = .wait → s.avail t < c ∨ Pend s p.1 p.2)
+    (hjob : ∀ o r, InScope s R p.1 p.2 → (depAt (s.jobs p.1) p.2).origin = .job o →
+      (depAt (s.jobs p.1) p.2).cur = .wait → (s.jobs o).pc = .finished r → Pend s p.1 p.2) :
+    InvQ s R none := by
+  refine ⟨h.tokComplete, h.jobComplete, ?_, ?_⟩
+  · intro j i t c hs _ ho hc
+    by_cases he : (j, i) = p
+    · subst he; exact htok t c hs ho hc
+    · exact h.tokWait j i t c hs (fun e => he (by simpa using e.symm)) ho hc
+  · intro j i o r hs _ ho hc hf
+    by_cases he : (j, i) = p
+    · subst he; exact hjob o r hs ho hc hf
+    · exact h.jobWait j i o r hs (fun e => he (by simpa using e.symm)) ho hc hf
+
+theorem invQ_exempt {s : St} {R : Nat → Nat → Prop} (p : Nat × Nat) (h : InvQ s R none) : InvQ s R (some p) :=
+  ⟨h.tokComplete, h.jobComplete, fun j i t c hs _ => h.tokWait j i t c hs (by simp),
+   fun j i o r hs _ => h.jobWait j i o r hs (by simp)⟩
+
+
+
+theorem check_fields (fl : Flags) (s : St) (j d : Nat) :
+    (s.check fl j d).avail = s.avail ∧ (s.check fl j d).tokDeps = s.tokDeps ∧ (s.check fl j d).jobDeps = s.jobDeps ∧
+    (∀ cb, cb ∈ s.ready → cb ∈ (s.check fl j d).ready) ∧
+    (∀ cb, cb ∈ (s.check fl j d).ready → cb ∈ s.ready ∨ cb = .wake j) := by
+  unfold St.check
+  refine ⟨rfl, rfl, rfl, fun cb h => ?_, fun cb h => ?_⟩
+  · simp only [put_ready, List.mem_append]; exact Or.inl h
+  · simp only [put_ready, List.mem_append] at h
+    rcases h with h | h
+    · exact Or.inl h
+    · split at h <;> simp at h
+      exact Or.inr h
+
+theorem pend_check (fl : Flags) (s : St) (j d j' i' : Nat) : Pend (s.check fl j d) j' i' ↔ Pend s j' i' := by
+  have f := check_fields fl s j d
+  unfold Pend
+  constructor
+  · rintro (h | h)
+    · rcases f.2.2.2.2 _ h with h | h
+      · exact Or.inl h
+      · cases h
+    · rcases f.2.2.2.2 _ h with h | h
+      · exact Or.inr h
+      · cases h
+  · rintro (h | h)
+    · exact Or.inl (f.2.2.2.1 _ h)
+    · exact Or.inr (f.2.2.2.1 _ h)
+
+/-- running the check of `(j, i)` re-establishes "no lost notification" for that pair. -/
+theorem check_invQ (fl : Flags) (hg : fl.readyGuarded = true) (s : St) (j i : Nat) (R : Nat → Nat → Prop) (ex : Option (Nat × Nat))
+    (hL : JL s) (hok : DepOK s j i) (hex : ∀ p, ex = some p → p = (j, i)) (h : InvQ s R ex) :
+    InvQ (s.check fl j i) R none := by
+  have hA := depChanged_depAt fl (s.jobs j) i (s.status (depAt (s.jobs j) i).origin) hok.2
+  have hM := depChanged_mono fl hg (s.jobs j) i (s.status (depAt (s.jobs j) i).origin)
+  have ej : (s.check fl j i).jobs j = (depChanged fl (s.jobs j) i (s.status (depAt (s.jobs j) i).origin)).1 :=
+    check_job fl s j i
+  have ene : ∀ k, k ≠ j → (s.check fl j i).jobs k = s.jobs k := fun k hk => check_job_ne fl s j i k hk
+  have f := check_fields fl s j i
+  have hlen : ∀ k, ((s.check fl j i).jobs k).deps.length = (s.jobs k).deps.length := by
+    intro k; by_cases hk : k = j
+    · subst hk; rw [ej]; exact hA.1
+    · rw [ene k hk]
+  have horig : ∀ k m, (depAt ((s.check fl j i).jobs k) m).origin = (depAt (s.jobs k) m).origin := by
+    intro k m; by_cases hk : k = j
+    · subst hk; rw [ej]; exact hA.2.1 m
+    · rw [ene k hk]
+  have hcur : ∀ k m, (k, m) ≠ (j, i) → (depAt ((s.check fl j i).jobs k) m).cur = (depAt (s.jobs k) m).cur := by
+    intro k m hkm; by_cases hk : k = j
+    · subst hk; rw [ej]; exact hA.2.2.1 m (fun e => hkm (by rw [e]))
+    · rw [ene k hk]
+  have hcur' : (depAt ((s.check fl j i).jobs j) i).cur = s.status (depAt (s.jobs j) i).origin := by
+    rw [ej]; exact hA.2.2.2
+  have hsc : ∀ k m, InScope (s.check fl j i) R k m → InScope s R k m := by
+    intro k m ⟨h1, h2, h3⟩
+    refine ⟨?_, by rw [hlen] at h2; exact h2, h3⟩
+    by_cases hk : k = j
+    · subst hk; exact hok.1
+    · unfold Started at h1 ⊢; rw [ene k hk] at h1; exact h1
+  refine ⟨?_, ?_, ?_, ?_⟩
+  · intro k m t c hs ho
+    rw [horig] at ho; rw [f.2.1]
+    exact h.tokComplete k m t c (hsc k m hs) ho
+  · intro k m o hs ho
+    rw [horig] at ho; rw [f.2.2.1]
+    exact h.jobComplete k m o (hsc k m hs) ho
+  · intro k m t c hs _ ho hc
+    rw [horig] at ho
+    rw [f.1, pend_check]
+    by_cases hkm : (k, m) = (j, i)
+    · simp only [Prod.mk.injEq] at hkm
+      obtain ⟨rfl, rfl⟩ := hkm
+      rw [hcur', ho] at hc
+      simp only [St.status] at hc
+      split at hc
+      · cases hc
+      · rename_i hlt; exact Or.inl (by omega)
+    · rw [hcur k m hkm] at hc
+      exact h.tokWait k m t c (hsc k m hs) (fun e => hkm (hex _ e)) ho hc
+  · intro k m o r hs _ ho hc hf
+    rw [horig] at ho
+    rw [check_pc] at hf
+    rw [pend_check]
+    by_cases hkm : (k, m) = (j, i)
+    · simp only [Prod.mk.injEq] at hkm
+      obtain ⟨rfl, rfl⟩ := hkm
+      exfalso
+      rw [hcur', ho] at hc
+      have hfin := jlocal_final (hL o) hf
+      simp only [St.status] at hc
+      rw [hfin.2] at hc
+      rcases hfin.1 with e | e <;> rw [e] at hc <;> cases hc
+    · rw [hcur k m hkm] at hc
+      exact h.jobWait k m o r (hsc k m hs) (fun e => hkm (hex _ e)) ho hc hf
+
+/-- the pair a callback is going to check. -/
+def pairOf : Cb → Option (Nat × Nat)
+  | .check j i => some (j, i)
+  | .notifyCheck j i => some (j, i)
+  | _ => none
+
+theorem pop_invQ {s : St} {cb : Cb} {rest : List Cb} {R : Nat → Nat → Prop} (h : InvQ s R none) (hr : s.ready = cb :: rest) :
+    InvQ ({ s with ready := rest } : St) R (pairOf cb) := by
+  have hp : ∀ j i, pairOf cb ≠ some (j, i) → Pend s j i → Pend ({ s with ready := rest } : St) j i := by
+    intro j i hne hp
+    unfold Pend at hp ⊢
+    rw [hr] at hp
+    simp only [List.mem_cons] at hp
+    rcases hp with (e | e) | (e | e)
+    · exact absurd (by rw [← e]; rfl) hne
+    · exact Or.inl e
+    · exact absurd (by rw [← e]; rfl) hne
+    · exact Or.inr e
+  refine ⟨h.tokComplete, h.jobComplete, ?_, ?_⟩
+  · intro j i t c hs hex ho hc
+    rcases h.tokWait j i t c hs (by simp) ho hc with ha | hq
+    · exact Or.inl ha
+    · exact Or.inr (hp j i hex hq)
+  · intro j i o r hs hex ho hc hf
+    exact hp j i hex (h.jobWait j i o r hs (by simp) ho hc hf)
+
+
+
+/-- giving back `c` units of token `t`. -/
+def relTok (s : St) (t c : Nat) : St :=
+  { s with avail := upd s.avail t (s.avail t + c),
+           ready := s.ready ++ (s.tokDeps t).map (fun (p : Nat × Nat) => Cb.notifyCheck p.1 p.2) }
+
+theorem relOne_eq (s : St) (j k : Nat) :
+    relOne s j k = match ((s.jobs j).deps.getD k default).origin with
+      | .job _ => s
+      | .tok t c => relTok s t c := rfl
+
+/-- releasing a token notifies every registered dependent of that token. -/
+theorem relTok_invQ (s : St) (t c : Nat) (R : Nat → Nat → Prop) (ex : Option (Nat × Nat)) (h : InvQ s R ex) :
+    InvQ (relTok s t c) R ex := by
+  have hpend : ∀ j' i', Pend s j' i' → Pend (relTok s t c) j' i' := by
+    intro j' i' hp
+    unfold Pend at hp ⊢
+    simp only [relTok, List.mem_append]
+    rcases hp with hp | hp
+    · exact Or.inl (Or.inl hp)
+    · exact Or.inr (Or.inl hp)
+  refine ⟨h.tokComplete, h.jobComplete, ?_, ?_⟩
+  · intro j' i' t' c' hs hex ho hc
+    by_cases ht : t' = t
+    · subst ht
+      right
+      have := h.tokComplete j' i' t' c' hs ho
+      unfold Pend
+      right
+      simp only [relTok, List.mem_append, List.mem_map]
+      exact Or.inr ⟨(j', i'), this, rfl⟩
+    · rcases h.tokWait j' i' t' c' hs hex ho hc with ha | hp
+      · left; simp only [relTok, upd, ht, if_false]; exact ha
+      · exact Or.inr (hpend j' i' hp)
+  · intro j' i' o r hs hex ho hc hf
+    exact hpend j' i' (h.jobWait j' i' o r hs hex ho hc hf)
+
+theorem relOne_invQ (s : St) (j k : Nat) (R : Nat → Nat → Prop) (ex : Option (Nat × Nat)) (h : InvQ s R ex) :
+    InvQ (relOne s j k) R ex := by
+  rw [relOne_eq]
+  split
+  · exact h
+  · exact relTok_invQ s _ _ R ex h
+
+/-- job `y` rewrites its own record (dependencies untouched, it does not return), possibly queuing callbacks. -/
+theorem put_invQ (s : St) (y : Nat) (jb : Job) (cbs : List Cb) (ths : List (TK × Nat)) (R : Nat → Nat → Prop)
+    (ex : Option (Nat × Nat)) (hdeps : jb.deps = (s.jobs y).deps)
+    (hst : jb.state ≠ .unscheduled → (s.jobs y).state ≠ .unscheduled ∨ (∀ i, ¬ R y i))
+    (hfin : ∀ r, jb.pc = .finished r → (s.jobs y).pc = .finished r) (h : InvQ s R ex) :
+    InvQ (s.put y jb cbs ths) R ex := by
+  refine invQ_transfer (s := s) ?_ ?_ ?_ (fun t => Int.le_refl _) ?_ (fun t p hp => hp) (fun o p hp => hp) h
+  · intro j i ⟨h1, h2, h3⟩
+    by_cases hj : j = y
+    · subst hj
+      simp only [Started, put_jobs, upd_same, hdeps] at h1 h2
+      rcases hst h1 with e | e
+      · exact ⟨e, h2, h3⟩
+      · exact absurd h3 (e i)
+    · simp only [Started, put_jobs, upd_ne _ _ hj] at h1 h2
+      exact ⟨h1, h2, h3⟩
+  · intro j i _
+    by_cases hj : j = y
+    · subst hj; simp [depAt, hdeps]
+    · simp [upd_ne _ _ hj]
+  · intro o r hf
+    by_cases ho : o = y
+    · subst ho; simp only [put_jobs, upd_same] at hf; exact hfin r hf
+    · simp only [put_jobs, upd_ne _ _ ho] at hf; exact hf
+  · intro j i hp
+    unfold Pend at hp ⊢
+    simp only [put_ready, List.mem_append]
+    rcases hp with hp | hp
+    · exact Or.inl (Or.inl hp)
+    · exact Or.inr (Or.inl hp)
+
+/-- only fields the fifth layer does not read changed, `avail` may only go down, the queue may only grow. -/
+theorem invQ_fields {s s' : St} {R : Nat → Nat → Prop} {ex : Option (Nat × Nat)} (hj : s'.jobs = s.jobs)
+    (hav : ∀ t, s'.avail t ≤ s.avail t) (hr : ∀ cb, cb ∈ s.ready → cb ∈ s'.ready)
+    (htd : s'.tokDeps = s.tokDeps) (hjd : s'.jobDeps = s.jobDeps) (h : InvQ s R ex) : InvQ s' R ex := by
+  refine invQ_transfer (s := s) ?_ ?_ ?_ hav ?_ (by rw [htd]; exact fun t p hp => hp) (by rw [hjd]; exact fun t p hp => hp) h
+  · intro j i hs; unfold InScope Started at hs ⊢; rw [hj] at hs; exact hs
+  · intro j i _; rw [hj]
+  · intro o r hf; rw [hj] at hf; exact hf
+  · intro j i hp; unfold Pend at hp ⊢
+    rcases hp with hp | hp
+    · exact Or.inl (hr _ hp)
+    · exact Or.inr (hr _ hp)
+
+theorem acqOne_invQ (s : St) (y k : Nat) (R : Nat → Nat → Prop) (ex : Option (Nat × Nat)) (h : InvQ s R ex) :
+    InvQ (acqOne s y k) R ex := by
+  unfold acqOne
+  split
+  · exact put_invQ s y _ _ _ R ex rfl (fun e => Or.inl e) (fun r e => e) h
+  · rename_i t c _
+    refine put_invQ _ y _ _ _ R ex rfl (fun e => Or.inl e) (fun r e => e) ?_
+    refine invQ_fields (s := s) rfl ?_ (fun cb hcb => hcb) rfl rfl h
+    intro t'
+    simp only [upd]
+    split
+    · rename_i e; subst e; omega
+    · exact Int.le_refl _
+
+/-- the `doneHandler` segment: every registered dependent of the finishing job gets a check. -/
+theorem doneStep_invQ (s : St) (y : Nat) (R : Nat → Nat → Prop) (ex : Option (Nat × Nat)) (h : InvQ s R ex) :
+    InvQ (doneStep s y) R ex := by
+  have hpend : ∀ j i, Pend s j i → Pend (doneStep s y) j i := by
+    intro j i hp
+    unfold Pend at hp ⊢
+    simp only [doneStep, put_ready, List.mem_append]
+    rcases hp with hp | hp
+    · exact Or.inl (Or.inl (Or.inl hp))
+    · exact Or.inr (Or.inl (Or.inl hp))
+  have hjobs : ∀ k, k ≠ y → (doneStep s y).jobs k = s.jobs k := fun k hk => by simp [doneStep, upd_ne _ _ hk]
+  have hdepAt : ∀ k m, depAt ((doneStep s y).jobs k) m = depAt (s.jobs k) m := by
+    intro k m; by_cases hk : k = y
+    · subst hk; simp [doneStep, depAt]
+    · rw [hjobs k hk]
+  have hsc : ∀ k m, InScope (doneStep s y) R k m → InScope s R k m := by
+    intro k m ⟨h1, h2, h3⟩
+    by_cases hk : k = y
+    · subst hk; simp only [Started, doneStep, put_jobs, upd_same] at h1 h2; exact ⟨h1, h2, h3⟩
+    · simp only [Started, hjobs k hk] at h1 h2; exact ⟨h1, h2, h3⟩
+  refine ⟨?_, ?_, ?_, ?_⟩
+  · intro j i t c hs ho; rw [hdepAt] at ho; exact h.tokComplete j i t c (hsc j i hs) ho
+  · intro j i o hs ho; rw [hdepAt] at ho; exact h.jobComplete j i o (hsc j i hs) ho
+  · intro j i t c hs hex ho hc
+    rw [hdepAt] at ho hc
+    rcases h.tokWait j i t c (hsc j i hs) hex ho hc with ha | hp
+    · exact Or.inl ha
+    · exact Or.inr (hpend j i hp)
+  · intro j i o r hs hex ho hc hf
+    rw [hdepAt] at ho hc
+    by_cases hoy : o = y
+    · subst hoy
+      have := h.jobComplete j i o (hsc j i hs) ho
+      unfold Pend
+      left
+      simp only [doneStep, put_ready, List.mem_append, List.mem_map]
+      exact Or.inl (Or.inr (Or.inr ⟨(j, i), this, rfl⟩))
+    · rw [hjobs o hoy] at hf
+      exact hpend j i (h.jobWait j i o r (hsc j i hs) hex ho hc hf)
+
+/-- registering the `d`-th dependency of `x` brings it into scope, exempt until its check has run. -/
+theorem regOne_invQ (s : St) (x d : Nat) (R R' : Nat → Nat → Prop) (hR : ∀ j i, R' j i → (j, i) ≠ (x, d) → R j i)
+    (h : InvQ s R none) : InvQ (regOne s x d) R' (some (x, d)) := by
+  have f := regOne_frame s x d
+  have hjobs : (regOne s x d).jobs = s.jobs := f.1
+  have hready : (regOne s x d).ready = s.ready := f.2.1
+  have hav : (regOne s x d).avail = s.avail := f.2.2.2.2.2.2.2.2.1
+  have htd : ∀ t p, p ∈ s.tokDeps t → p ∈ (regOne s x d).tokDeps t := by
+    intro t p hp; unfold regOne; split
+    · exact hp
+    · simp only [upd]; split
+      · rename_i e; subst e; exact List.mem_append_left _ hp
+      · exact hp
+  have hjd : ∀ o p, p ∈ s.jobDeps o → p ∈ (regOne s x d).jobDeps o := by
+    intro o p hp; unfold regOne; split
+    · simp only [upd]; split
+      · rename_i e; subst e; exact List.mem_append_left _ hp
+      · exact hp
+    · exact hp
+  have hsc : ∀ j i, InScope (regOne s x d) R' j i → (j, i) ≠ (x, d) → InScope s R j i := by
+    intro j i ⟨h1, h2, h3⟩ hne
+    unfold Started at h1; rw [hjobs] at h1 h2
+    exact ⟨h1, h2, hR j i h3 hne⟩
+  refine ⟨?_, ?_, ?_, ?_⟩
+  · intro j i t c hs ho
+    by_cases hne : (j, i) = (x, d)
+    · simp only [Prod.mk.injEq] at hne
+      obtain ⟨rfl, rfl⟩ := hne
+      rw [hjobs] at ho
+      have ho' : ((s.jobs j).deps.getD i default).origin = .tok t c := ho
+      unfold regOne
+      split
+      · rename_i o' ho''; rw [ho'] at ho''; cases ho''
+      · rename_i t' c' ho''; rw [ho'] at ho''; cases ho''; simp [upd]
+    · rw [hjobs] at ho
+      exact htd t _ (h.tokComplete j i t c (hsc j i hs hne) ho)
+  · intro j i o hs ho
+    by_cases hne : (j, i) = (x, d)
+    · simp only [Prod.mk.injEq] at hne
+      obtain ⟨rfl, rfl⟩ := hne
+      rw [hjobs] at ho
+      have ho' : ((s.jobs j).deps.getD i default).origin = .job o := ho
+      unfold regOne
+      split
+      · rename_i o' ho''; rw [ho'] at ho''; cases ho''; simp [upd]
+      · rename_i t' c' ho''; rw [ho'] at ho''; cases ho''
+    · rw [hjobs] at ho
+      exact hjd o _ (h.jobComplete j i o (hsc j i hs hne) ho)
+  · intro j i t c hs hex ho hc
+    have hne : (j, i) ≠ (x, d) := fun e => hex (by rw [e])
+    rw [hjobs] at ho hc
+    unfold Pend; rw [hready, hav]
+    exact h.tokWait j i t c (hsc j i hs hne) (by simp) ho hc
+  · intro j i o r hs hex ho hc hf
+    have hne : (j, i) ≠ (x, d) := fun e => hex (by rw [e])
+    rw [hjobs] at ho hc hf
+    unfold Pend; rw [hready]
+    exact h.jobWait j i o r (hsc j i hs hne) (by simp) ho hc hf
+
+
+
+/-- "no lost notification" for every registered dependency. -/
+def InvQF (s : St) : Prop := InvQ s (fun _ _ => True) none
+
+theorem invQ_rescope {s : St} {R R' : Nat → Nat → Prop} {ex : Option (Nat × Nat)}
+    (hR : ∀ j i, Started s j → i < (s.jobs j).deps.length → R' j i → R j i) (h : InvQ s R ex) : InvQ s R' ex :=
+  invQ_transfer (s := s) (fun j i hs => ⟨hs.1, hs.2.1, hR j i hs.1 hs.2.1 hs.2.2⟩) (fun _ _ _ => rfl)
+    (fun _ _ hf => hf) (fun _ => Int.le_refl _) (fun _ _ hp => hp) (fun _ _ hp => hp) (fun _ _ hp => hp) h
+
+theorem invQ_congr {s s' : St} {R : Nat → Nat → Prop} {ex : Option (Nat × Nat)} (hj : s'.jobs = s.jobs)
+    (hav : s'.avail = s.avail) (hr : s'.ready = s.ready) (htd : s'.tokDeps = s.tokDeps) (hjd : s'.jobDeps = s.jobDeps)
+    (h : InvQ s R ex) : InvQ s' R ex :=
+  invQ_fields hj (by rw [hav]; exact fun _ => Int.le_refl _) (by rw [hr]; exact fun _ hcb => hcb) htd hjd h
+
+theorem shape_invQ {s s' : St} {y : Nat} {jb : Job} {cbs : List Cb} {R : Nat → Nat → Prop}
+    {ex : Option (Nat × Nat)} (hs : Shape s s' y jb cbs) (hdeps : jb.deps = (s.jobs y).deps)
+    (hst : jb.state ≠ .unscheduled → (s.jobs y).state ≠ .unscheduled ∨ (∀ i, ¬ R y i))
+    (hfin : ∀ r, jb.pc = .finished r → (s.jobs y).pc = .finished r) (h : InvQ s R ex) : InvQ s' R ex :=
+  invQ_congr (s := s.put y jb cbs []) hs.jobs hs.avail hs.ready hs.tokDeps hs.jobDeps
+    (put_invQ s y jb cbs [] R ex hdeps hst hfin h)
+
+theorem loopHeadJ_not_finished (jb : Job) (r : JS) : (loopHeadJ jb).pc ≠ .finished r := by
+  intro h
+  have := loopHeadJ_kind jb
+  rw [h] at this
+  simp [pcKind] at this
+
+/-- scope while job `x` registers its dependencies: only the first `d`. -/
+def Rd (x d : Nat) : Nat → Nat → Prop := fun j i => j = x → i < d
+
+theorem regPhase_invQ (fl : Flags) (hg : fl.readyGuarded = true) (s : St) (x : Nat)
+    (hL : JL s) (hS : InvS s) (hD : InvD s) (hu : (s.jobs x).state = .unscheduled) (h : InvQF s) :
+    InvQF (regPhase fl s x) := by
+  have hq0 : InvQ s (Rd x 0) none := invQ_rescope (fun _ _ _ _ _ => trivial) h
+  have hno : ∀ i, ¬ Rd x 0 x i := fun i hi => by have := hi rfl; omega
+  unfold regPhase
+  split
+  · rename_i hemp
+    have hd : (s.jobs x).deps = [] := by simpa using hemp
+    have h2 : InvQ ((s.put x (startRec (s.jobs x))).put x (startRecNoDeps (s.jobs x))) (Rd x 0) none :=
+      shape_invQ (put_put_shape s x _ _) rfl (fun _ => Or.inr hno) (fun r e => (by cases hp : (s.jobs x).pc <;> simp_all [startRecNoDeps, startRec])) hq0
+    refine invQ_rescope ?_ h2
+    intro j i _ hi _ hj
+    subst hj
+    simp [startRecNoDeps, startRec, hd] at hi
+  · have hQ1 := (regPhase_Q fl hg s x (hL x) hS hD hu)
+    have hq1 : InvQ ((s.put x (startRec (s.jobs x))).put x (startRecDeps (s.jobs x))) (Rd x 0) none :=
+      shape_invQ (put_put_shape s x _ _) rfl (fun _ => Or.inr hno) (fun r e => (by cases hp : (s.jobs x).pc <;> simp_all [startRecDeps, startRec])) hq0
+    -- the registration loop, with the scope growing one dependency at a time
+    have hStartQ1 : StartQ s ((s.put x (startRec (s.jobs x))).put x (startRecDeps (s.jobs x))) x := by
+      have hND := noDeps_of_unscheduled hD.truth hu
+      have hJ0 := hD.recs x
+      have hp := hJ0.fresh hu
+      refine ⟨shape_invD (put_put_shape s x _ _) hD (jdeep_startRecDeps hJ0 hu) rfl (fun _ => by simp [startRecDeps, startRec])
+        (Or.inr hND) (by simp), ?_, ?_, ?_, ?_⟩
+      · exact put_noDeps _ x x _ _ _ (by simp [startRecNoDeps, startRecDeps, startRec]) (put_noDeps s x x _ _ _ rfl hND)
+      · simp [Started, startRecDeps, startRec]
+      · simp only [put_jobs, upd_same]
+        exact startRec_jlocal (hL x) hp _ rfl rfl rfl rfl (Or.inl rfl)
+      · exact (Frame.put s x (startRec (s.jobs x)) [] [] ⟨rfl, rfl, rfl, rfl⟩).trans (Frame.put (s.put x (startRec (s.jobs x))) x _ [] [] (by rw [put_jobs, upd_same]; exact ⟨rfl, rfl, rfl, rfl⟩))
+    have hJL1 : JL ((s.put x (startRec (s.jobs x))).put x (startRecDeps (s.jobs x))) := by
+      intro i
+      by_cases hi : i = x
+      · subst hi; exact hStartQ1.2.2.2.1
+      · simp only [put_jobs, upd_ne _ _ hi]; exact hL i
+    have key := registerDeps_ind2
+      (fun d s' => StartQ s s' x ∧ JL s' ∧ InvQ s' (Rd x d) none) fl x (s.jobs x).deps.length ?_
+      (s.jobs x).deps.length 0 _ (Nat.zero_add _) ⟨hStartQ1, hJL1, hq1⟩
+    · obtain ⟨hq, _, hi⟩ := key
+      refine invQ_rescope ?_ hi
+      intro j i _ hi' _ hj
+      subst hj
+      rw [(startQ_len hq).1] at hi'; exact hi'
+    · intro s' d hd ⟨hq, hjl, hi⟩
+      have hq' := startQ_regOne s s' x d hd hq
+      have hjl' : JL (regOne s' x d) := by intro i; rw [(regOne_frame s' x d).1]; exact hjl i
+      have hi' := regOne_invQ s' x d (Rd x d) (Rd x (d + 1)) (by
+        intro j i hR hne hj
+        have := hR hj
+        have : i ≠ d := fun e => hne (by rw [hj, e])
+        omega) hi
+      refine ⟨startQ_check fl hg s _ x d hS hd hq', fun i => check_jl fl hg _ x d i (hjl' i), ?_⟩
+      refine check_invQ fl hg _ x d _ _ hjl' ⟨hq'.2.2.1, by rw [(startQ_len hq').1]; exact hd⟩ ?_ hi'
+      intro p hp; simp at hp; exact hp.symm
+
+theorem startJob_invQ (fl : Flags) (hg : fl.readyGuarded = true) (s : St) (x : Nat)
+    (hL : JL s) (hS : InvS s) (hD : InvD s) (hu : (s.jobs x).state = .unscheduled) (h : InvQF s) :
+    InvQF (s.startJob fl x) := by
+  rw [startJob_eq]
+  have h2 := regPhase_invQ fl hg s x hL hS hD hu h
+  have hSt := (regPhase_Q fl hg s x (hL x) hS hD hu).2.2.1
+  generalize regPhase fl s x = s2 at h2 hSt
+  refine shape_invQ (marker_loopHead_shape s2 x) ?_ (fun _ => Or.inl hSt) (fun r e => absurd e (loopHeadJ_not_finished _ r)) h2
+  rw [(loopHeadJ_frame _).1]; split <;> rfl
+
+
+
+theorem wake_invQ (fl : Flags) (s : St) (x : Nat) (hst : (s.jobs x).state ≠ .unscheduled) (h : InvQF s) :
+    InvQF (s.runCb fl (.wake x)) := by
+  simp only [St.runCb]
+  split
+  · exact put_invQ s x _ _ _ _ none rfl (fun _ => Or.inl hst) (fun r e => (by cases e)) h
+  · refine shape_invQ (put_loopHead_shape s x _ [] []) ?_ (fun _ => Or.inl hst)
+      (fun r e => absurd e (loopHeadJ_not_finished _ r)) h
+    rw [(loopHeadJ_frame _).1]
+
+theorem releaseAll_invQ (s : St) (x : Nat) (ds : List Nat) (R : Nat → Nat → Prop) (ex : Option (Nat × Nat))
+    (h : InvQ s R ex) : InvQ (St.releaseAll s x ds) R ex :=
+  releaseAll_ind (fun s' => InvQ s' R ex) x (fun _ => True)
+    (fun s' d _ h' => relOne_invQ s' x d R ex h')
+    (fun s' h' => put_invQ s' x _ _ _ R ex rfl (fun e => Or.inl e) (fun r e => e) h')
+    ds s (fun _ _ => trivial) h
+
+theorem acquireAll_invQ (s : St) (x k d : Nat) (R : Nat → Nat → Prop) (ex : Option (Nat × Nat))
+    (h : InvQ s R ex) : InvQ (St.acquireAll s x k d).1 R ex :=
+  (acquireAll_ind (fun s' => InvQ s' R ex) x (d + k) (fun s' d _ _ h' => acqOne_invQ s' x d R ex h') k d s rfl h).1
+
+theorem enterTail_invQ (fl : Flags) (hg : fl.readyGuarded = true) (r : St × Option Nat) (x : Nat)
+    (hL : JL r.1) (hst : (r.1.jobs x).state ≠ .unscheduled)
+    (hlt : ∀ e, r.2 = some e → e < (r.1.jobs x).deps.length) (h : InvQF r.1) : InvQF (enterTail fl r x) := by
+  obtain ⟨s1, fa⟩ := r
+  simp only at hL hst hlt h
+  unfold enterTail
+  cases fa with
+  | some d =>
+    simp only
+    have hc := check_invQ fl hg s1 x d _ none hL ⟨hst, hlt d rfl⟩ (by intro p hp; cases hp) h
+    have hst' : ((s1.check fl x d).jobs x).state ≠ .unscheduled := by
+      rw [check_job]; exact (depChanged_mono fl hg _ _ _).1 hst
+    exact put_invQ _ x _ _ _ _ none rfl (fun _ => Or.inl hst') (fun r e => (by cases e)) hc
+  | none =>
+    simp only
+    exact put_invQ _ x _ _ _ _ none rfl (fun _ => Or.inl hst) (fun r e => (by cases e)) h
+
+theorem abortTail_invQ (fl : Flags) (s1 : St) (x : Nat) (hst : (s1.jobs x).state ≠ .unscheduled) (h : InvQF s1) :
+    InvQF (abortTail fl s1 x) := by
+  unfold abortTail
+  simp only
+  refine shape_invQ (put_loopHead_shape s1 x _ _ []) ?_ (fun _ => Or.inl hst)
+    (fun r e => absurd e (loopHeadJ_not_finished _ r)) h
+  rw [(loopHeadJ_frame _).1]
+  split
+  · exact (eventSet_frame _).2.2.2.2.2.2.2.2.1
+  · rfl
+
+theorem codeTail_invQ (s1 : St) (x : Nat) (hst : (s1.jobs x).state ≠ .unscheduled) (h : InvQF s1) :
+    InvQF (codeTail s1 x) := by
+  unfold codeTail
+  have hs := (Shape.put s1 x { (s1.jobs x) with state := if (s1.jobs x).code = 0 then JS.done else JS.error } [] []).trans
+    (finish_shape _ x)
+  simp only [put_jobs, upd_same, List.append_nil] at hs
+  exact shape_invQ hs rfl (fun _ => Or.inl hst) (fun r e => (by cases e)) h
+
+theorem resume_invQ (fl : Flags) (hg : fl.readyGuarded = true) (s : St) (x : Nat) (hL : JL s)
+    (hst : (s.jobs x).state ≠ .unscheduled) (h : InvQF s) : InvQF (s.resume fl x) := by
+  cases hp : (s.jobs x).pc with
+  | lockEnter =>
+    rw [resume_lockEnter fl s x hp]
+    obtain ⟨hl, e⟩ := acquireAll_job s x (s.jobs x).deps.length 0
+    have hF := acquireAll_frame s x (s.jobs x).deps.length 0
+    refine enterTail_invQ fl hg _ x ?_ (by rw [e]; exact hst) ?_ (acquireAll_invQ s x _ 0 _ none h)
+    · intro i
+      by_cases hi : i = x
+      · subst hi; rw [e]; exact hL i
+      · rw [hF.2.2.2.2.1 i hi]; exact hL i
+    · intro d hd; rw [e]; simpa using acquireAll_lt s x _ 0 d hd
+  | lockExitAbort =>
+    rw [resume_lockExitAbort fl s x hp]
+    exact abortTail_invQ fl _ x (by rw [releaseAll_job]; exact hst) (releaseAll_invQ s x _ _ none h)
+  | lockExitRun =>
+    rw [resume_lockExitRun fl s x hp]
+    exact put_invQ s x _ _ _ _ none rfl (fun _ => Or.inl hst) (fun r e => (by cases e)) h
+  | codeWait =>
+    rw [resume_codeWait fl s x hp]
+    exact codeTail_invQ _ x (by rw [releaseAll_job]; exact hst) (releaseAll_invQ s x _ _ none h)
+  | doneHandler => rw [resume_doneHandler fl s x hp]; exact doneStep_invQ s x _ none h
+  | _ => rw [resume_other fl s x (by simp [hp, pcKind])]; exact h
+
+/-- `notifyCheck`: either the check runs, or the token has nothing available. -/
+theorem notifyCheck_cases2 (fl : Flags) (s : St) (j d : Nat) :
+    s.runCb fl (.notifyCheck j d) = s.check fl j d ∨
+    (s.runCb fl (.notifyCheck j d) = s ∧ ∃ t c, (depAt (s.jobs j) d).origin = .tok t c ∧ s.avail t ≤ 0) := by
+  simp only [St.runCb]
+  split
+  · rename_i t c ho
+    split
+    · exact Or.inl rfl
+    · rename_i hle; exact Or.inr ⟨rfl, t, c, ho, by omega⟩
+  · exact Or.inl rfl
+
+theorem runCb_invQ (fl : Flags) (hg : fl.readyGuarded = true) (s : St) (cb : Cb) (rest : List Cb)
+    (hC : InvC s) (hr : s.ready = cb :: rest) (h : InvQF s) : InvQF (({ s with ready := rest } : St).runCb fl cb) := by
+  have h0 := pop_invQ h hr
+  have hL0 : JL ({ s with ready := rest } : St) := hC.a.loc
+  have hstart : ∀ x, pcKind (s.jobs x).pc = 2 ∨ pcKind (s.jobs x).pc = 3 → (s.jobs x).state ≠ .unscheduled := by
+    intro x hk hu
+    have := (hC.d.recs x).fresh hu
+    rcases this with e | e <;> rw [e] at hk <;> simp [pcKind] at hk
+  cases cb with
+  | register j =>
+    have f := register_jobs fl ({ s with ready := rest } : St) j
+    refine invQ_congr (s := ({ s with ready := rest } : St)) f.1 ?_ f.2.1 ?_ ?_ h0 <;>
+    · simp only [St.runCb]; unfold St.register; simp only; split
+      · split
+        · split <;> rfl
+        · rfl
+      · rfl
+  | start j =>
+    have hpc := head_start_pc (s := s) hC.a.ctl hr
+    have hS0 : InvS ({ s with ready := rest } : St) :=
+      ⟨hC.st.blankDeps, hC.st.acyclic, hC.st.tokOK, hC.st.effLe, hC.st.regLt, hC.st.resLt,
+       fun j hj => hC.st.regCb j (by rw [hr]; exact List.mem_cons_of_mem _ hj)⟩
+    exact startJob_invQ fl hg _ j hL0 hS0 (pop_invD hC.d hr) (hC.f j (Or.inr hpc)) h0
+  | wake j =>
+    have hpc := head_wake_pc (s := s) hC.a.ctl hr
+    exact wake_invQ fl _ j (hstart j (Or.inl (by rw [hpc]; rfl))) h0
+  | resume j =>
+    exact resume_invQ fl hg _ j hL0 (hstart j (Or.inr (head_resume_kind (s := s) hC.a.ctl hr))) h0
+  | check j d =>
+    have hok := hC.d.wf.cbOK j d (Or.inl (by rw [hr]; exact List.mem_cons_self ..))
+    exact check_invQ fl hg _ j d _ _ hL0 hok (by intro p hp; simp [pairOf] at hp; exact hp.symm) h0
+  | notifyCheck j d =>
+    have hok := hC.d.wf.cbOK j d (Or.inr (by rw [hr]; exact List.mem_cons_self ..))
+    rcases notifyCheck_cases2 fl ({ s with ready := rest } : St) j d with e | ⟨e, t, c, ho, hle⟩ <;> rw [e]
+    · exact check_invQ fl hg _ j d _ _ hL0 hok (by intro p hp; simp [pairOf] at hp; exact hp.symm) h0
+    · refine invQ_unexempt (p := (j, d)) h0 ?_ ?_
+      · intro t' c' _ ho' _
+        have ho'' : (depAt (s.jobs j) d).origin = .tok t' c' := ho'
+        have ho2 : (depAt (s.jobs j) d).origin = .tok t c := ho
+        rw [ho2] at ho''
+        simp only [Origin.tok.injEq] at ho''
+        obtain ⟨rfl, rfl⟩ := ho''
+        have := (hC.st.tokOK j d t c hok.2 ho2).2
+        left
+        show s.avail t < c
+        have hle' : s.avail t ≤ 0 := hle
+        omega
+      · intro o r _ ho' _ _
+        have ho'' : (depAt (s.jobs j) d).origin = .job o := ho'
+        have ho2 : (depAt (s.jobs j) d).origin = .tok t c := ho
+        rw [ho2] at ho''; cases ho''
+  | waiterRun =>
+    have f := waiterRun_jobs ({ s with ready := rest } : St)
+    refine invQ_congr (s := ({ s with ready := rest } : St)) f.1 ?_ f.2.1 ?_ ?_ h0 <;>
+    · simp only [St.runCb]; unfold St.waiterRun; split <;> rfl
+
+
+
+/-- all step-level layers, including "no lost notification". -/
+structure InvG (s : St) : Prop where
+  e : InvE s
+  nolost : InvQF s
+
+theorem step_invG (fl : Flags) (hg : fl.readyGuarded = true) (ha : fl.abortRechecks = true) (s : St) (h : InvG s) :
+    InvG (s.step fl) := by
+  refine ⟨step_invE fl hg ha s h.e, ?_⟩
+  unfold St.step; split
+  · exact h.nolost
+  · rename_i cb rest hr; exact runCb_invQ fl hg s cb rest h.e.c hr h.nolost
+
+theorem apply_invG (fl : Flags) (hg : fl.readyGuarded = true) (ha : fl.abortRechecks = true) (s : St) (ev : Ev)
+    (hok : EvOK s ev) (h : InvG s) : InvG (s.apply fl ev) := by
+  cases ev with
+  | step => exact step_invG fl hg ha s h
+  | wait =>
+    refine ⟨apply_invE fl hg ha s .wait hok h.e, ?_⟩
+    exact invQ_fields (s := s) rfl (fun _ => Int.le_refl _)
+      (fun cb hcb => by simp only [St.apply, List.mem_append]; exact Or.inl hcb) rfl rfl h.nolost
+  | deliver k =>
+    refine ⟨apply_invE fl hg ha s (.deliver k) hok h.e, ?_⟩
+    simp only [St.apply]; split
+    · exact invQ_fields (s := s) rfl (fun _ => Int.le_refl _)
+        (fun cb hcb => by simp only [List.mem_append]; exact Or.inl hcb) rfl rfl h.nolost
+    · exact h.nolost
+  | submit ident deps code marker =>
+    refine ⟨apply_invE fl hg ha s _ hok h.e, ?_⟩
+    rw [apply_submit]
+    have hpcn := h.e.c.a.blank s.n (Nat.le_refl _)
+    have hun : (s.jobs s.n).state = .unscheduled := h.e.c.f s.n (Or.inl hpcn)
+    have hE0 : InvE (submitPre s ident deps code marker) := by
+      have := apply_invE fl hg ha s (.submit ident deps code marker) hok h.e
+      -- rebuild from the parts (the event-level lemma is about the whole event): use the pre-state lemmas directly
+      refine ⟨submitPre_invC s ident deps code marker hok h.e.c, ?_⟩
+      intro i
+      by_cases hi : i = s.n
+      · subst hi
+        simp only [submitPre, upd_same]
+        exact ⟨⟨fun hs => (by cases hs), fun hp => (by cases hp), fun hp => (by cases hp), fun hw => (by cases hw),
+          fun hw => (by cases hw)⟩, fun hh => absurd rfl hh⟩
+      · rw [submitPre_jobs_ne _ _ _ _ _ _ hi]; exact h.e.q i
+    have hQ0 : InvQF (submitPre s ident deps code marker) := by
+      refine invQ_transfer (s := s) ?_ ?_ ?_ (fun _ => Int.le_refl _) ?_ (fun _ _ hp => hp) (fun _ _ hp => hp) h.nolost
+      · intro j i ⟨h1, h2, h3⟩
+        by_cases hj : j = s.n
+        · subst hj; exact absurd (by simp [submitPre, newJob]) h1
+        · unfold Started at h1; rw [submitPre_jobs_ne _ _ _ _ _ _ hj] at h1 h2; exact ⟨h1, h2, h3⟩
+      · intro j i ⟨h1, _, _⟩
+        by_cases hj : j = s.n
+        · subst hj; exact absurd (by simp [submitPre, newJob]) h1
+        · rw [submitPre_jobs_ne _ _ _ _ _ _ hj]
+      · intro o r hf
+        by_cases ho : o = s.n
+        · subst ho; simp [submitPre, newJob] at hf
+        · rw [submitPre_jobs_ne _ _ _ _ _ _ ho] at hf; exact hf
+      · intro j i hp
+        unfold Pend at hp ⊢
+        simp only [submitPre, List.mem_append]
+        rcases hp with hp | hp
+        · exact Or.inl (Or.inl hp)
+        · exact Or.inr (Or.inl hp)
+    have h1 := steps_ind (fun s' => InvG s' ∧ (s'.jobs s.n).pc = .none) fl
+      (fun s' hs' => ⟨step_invG fl hg ha s' hs'.1, by
+        rw [step_kind0 fl s' hs'.1.e.c.a.ctl s.n (by rw [hs'.2]; rfl)]; exact hs'.2⟩)
+      (s.ready.length + 1) _ ⟨⟨hE0, hQ0⟩, by simp [submitPre, newJob]⟩
+    generalize St.steps fl (submitPre s ident deps code marker) (s.ready.length + 1) = s2 at h1
+    obtain ⟨hG, hpc⟩ := h1
+    have hun2 : (s2.jobs s.n).state = .unscheduled := hG.e.c.f s.n (Or.inl hpc)
+    unfold submitPost
+    split
+    · exact invQ_congr (s := s2) rfl rfl rfl rfl rfl hG.nolost
+    · refine put_invQ _ s.n _ _ _ _ none rfl (fun hs => absurd hun2 hs) (fun r e => (by cases e)) ?_
+      exact invQ_congr (s := s2) rfl rfl rfl rfl rfl hG.nolost
+
+theorem init_invG (totals : List Nat) : InvG (St.init totals) := by
+  refine ⟨init_invE totals, ?_, ?_, ?_, ?_⟩
+  · intro j i t c hs; simp [InScope, St.init] at hs
+  · intro j i o hs; simp [InScope, St.init] at hs
+  · intro j i t c hs; simp [InScope, St.init] at hs
+  · intro j i o r hs; simp [InScope, St.init] at hs
+
+theorem reachable_invG {fl : Flags} (hg : fl.readyGuarded = true) (ha : fl.abortRechecks = true)
+    {totals : List Nat} {s : St} (h : Reachable fl totals s) : InvG s := by
+  induction h with
+  | init => exact init_invG totals
+  | next _ hok ih => exact apply_invG fl hg ha _ _ hok ih
+
+
+
+/-! ## sixth layer: every dependency points to a scheduled job -/
+
+/-- what a step never undoes: scheduled jobs stay scheduled; `eff`, `n` and the dependency origins are fixed. -/
+structure Mono (s s' : St) : Prop where
+  pcs : ∀ j, (s.jobs j).pc ≠ .none → (s'.jobs j).pc ≠ .none
+  eff : s'.eff = s.eff
+  n : s'.n = s.n
+  lens : ∀ j, (s'.jobs j).deps.length = (s.jobs j).deps.length
+  origins : ∀ j i, (depAt (s'.jobs j) i).origin = (depAt (s.jobs j) i).origin
+
+theorem runCb_mono (fl : Flags) (s : St) (cb : Cb) (rest : List Cb) (hI : Inv1 s) (hr : s.ready = cb :: rest) :
+    Mono s (({ s with ready := rest } : St).runCb fl cb) := by
+  have hF := runCb_frame fl ({ s with ready := rest } : St) cb
+  obtain ⟨fn, fe, _, _, fj, fc⟩ := hF
+  have hc := sameConst_origin fc
+  refine ⟨?_, fe, fn, ?_, ?_⟩
+  · intro j hj
+    by_cases hjt : j = target cb
+    · subst hjt
+      by_cases hp : plainCb cb
+      · rw [plain_pc fl _ cb hp]; exact hj
+      · cases cb with
+        | start x => exact fun e => startJob_not_fresh fl _ x (Or.inl e)
+        | wake x => exact fun e => wake_not_fresh fl _ x (Or.inl e)
+        | resume x => exact fun e => resume_not_fresh fl ({ s with ready := rest } : St) x (head_resume_kind (s := s) hI hr) (Or.inl e)
+        | _ => simp [plainCb] at hp
+    · rw [fj j hjt]; exact hj
+  · intro j
+    by_cases hjt : j = target cb
+    · subst hjt; exact hc.1
+    · rw [fj j hjt]
+  · intro j i
+    by_cases hjt : j = target cb
+    · subst hjt; exact hc.2 i
+    · rw [fj j hjt]
+
+/-- scheduled origins: `eff d` for `d < m`, and every job dependency. -/
+structure OE (s : St) (m : Nat) : Prop where
+  effSch : ∀ d, d < m → (s.jobs (s.eff d)).pc ≠ .none
+  origSch : ∀ j i o, i < (s.jobs j).deps.length → (depAt (s.jobs j) i).origin = .job o → (s.jobs o).pc ≠ .none
+
+def RegSch (s : St) : Prop := ∀ p, p ∈ s.registry → (s.jobs p.2).pc ≠ .none
+
+theorem oe_mono {s s' : St} {m : Nat} (hM : Mono s s') (h : OE s m) : OE s' m :=
+  ⟨fun d hd => by rw [hM.eff]; exact hM.pcs _ (h.effSch d hd),
+   fun j i o hi ho => by rw [hM.lens] at hi; rw [hM.origins] at ho; exact hM.pcs _ (h.origSch j i o hi ho)⟩
+
+/-- after the registration: what the registry and the result say about the new job `j`. -/
+def B2 (s : St) (j : Nat) : Prop :=
+  (s.regResult = some none ∧ ∀ p, p ∈ s.registry → (s.jobs p.2).pc ≠ .none ∨ p.2 = j) ∨
+  (∃ o, s.regResult = some (some o) ∧ (s.jobs o).pc ≠ .none ∧ RegSch s)
+
+theorem register_registry (fl : Flags) (s : St) (j : Nat) :
+    ((s.register fl j).regResult = some none ∧
+      ((s.register fl j).registry = ((s.jobs j).ident, j) :: s.registry ∨ (s.register fl j).registry = s.registry)) ∨
+    (∃ o, (s.register fl j).regResult = some (some o) ∧ (s.register fl j).registry = s.registry ∧
+      ((s.jobs j).ident, o) ∈ s.registry) := by
+  unfold St.register
+  simp only
+  split
+  · rename_i o ho
+    split
+    · split
+      · exact Or.inl ⟨rfl, Or.inl rfl⟩
+      · exact Or.inl ⟨rfl, Or.inr rfl⟩
+    · exact Or.inr ⟨o, rfl, rfl, lookup_mem _ _ _ ho⟩
+  · exact Or.inl ⟨rfl, Or.inl rfl⟩
+
+/-- a non-registration step inside (or outside) `submit` keeps the registry facts. -/
+theorem step_regSch (fl : Flags) (s : St) (hI : Inv1 s) (hz : nReg s.ready = 0) :
+    Mono s (s.step fl) ∧ (s.step fl).registry = s.registry ∧ (s.step fl).regResult = s.regResult := by
+  unfold St.step
+  split
+  · exact ⟨⟨fun _ h => h, rfl, rfl, fun _ => rfl, fun _ _ => rfl⟩, rfl, rfl⟩
+  · rename_i cb rest hr
+    rw [hr] at hz
+    have hcb := isReg_of_nReg hz
+    obtain ⟨q1, q2, _⟩ := runCb_queue fl ({ s with ready := rest } : St) cb hcb.1
+    exact ⟨runCb_mono fl s cb rest hI hr, q2, q1⟩
+
+theorem stepA_succ2 (fl : Flags) (s : St) (j m : Nat) (hI : Inv1 s) (h : PhA s j (m + 1)) (hR : RegSch s) :
+    Mono s (s.step fl) ∧ RegSch (s.step fl) := by
+  obtain ⟨r, extra, hr, hl, hz, hze, hrr, hc⟩ := h
+  cases r with
+  | nil => simp at hl
+  | cons cb r' =>
+    have hcb := isReg_of_nReg hz
+    have hr' : s.ready = cb :: (r' ++ Cb.register j :: extra) := by rw [hr]; rfl
+    have hM : Mono s (s.step fl) := by
+      unfold St.step; rw [hr']; exact runCb_mono fl s cb _ hI hr'
+    have hreg : (s.step fl).registry = s.registry := by
+      unfold St.step; rw [hr']; simp only
+      exact (runCb_queue fl _ cb hcb.1).2.1
+    exact ⟨hM, fun p hp => by rw [hreg] at hp; exact hM.pcs _ (hR p hp)⟩
+
+theorem stepA_zero2 (fl : Flags) (s : St) (j : Nat) (h : PhA s j 0) (hR : RegSch s) :
+    Mono s (s.step fl) ∧ B2 (s.step fl) j := by
+  obtain ⟨r, extra, hr, hl, hz, hze, hrr, hc⟩ := h
+  have : r = [] := List.eq_nil_of_length_eq_zero hl
+  subst this
+  simp only [List.nil_append] at hr
+  have hstep : s.step fl = St.register fl ({ s with ready := extra } : St) j := by
+    unfold St.step; rw [hr]; rfl
+  have f := register_jobs fl ({ s with ready := extra } : St) j
+  have hF := register_frame fl ({ s with ready := extra } : St) j j
+  have hjobs : (s.step fl).jobs = s.jobs := by rw [hstep]; exact f.1
+  have hM : Mono s (s.step fl) :=
+    ⟨fun k hk => by rw [hjobs]; exact hk, by rw [hstep]; exact hF.2.1, by rw [hstep]; exact hF.1,
+     fun k => by rw [hjobs], fun k i => by rw [hjobs]⟩
+  refine ⟨hM, ?_⟩
+  unfold B2
+  rw [hjobs]
+  rw [hstep]
+  have hR' : ∀ p, p ∈ s.registry → (s.jobs p.2).pc ≠ .none := hR
+  rcases register_registry fl ({ s with ready := extra } : St) j with ⟨e1, e2⟩ | ⟨o, e1, e2, e3⟩
+  · left
+    refine ⟨e1, ?_⟩
+    intro p hp
+    rcases e2 with e2 | e2 <;> rw [e2] at hp
+    · simp only [List.mem_cons] at hp
+      rcases hp with hp | hp
+      · right; rw [hp]
+      · exact Or.inl (hR' p hp)
+    · exact Or.inl (hR' p hp)
+  · right
+    refine ⟨o, e1, hR' _ e3, ?_⟩
+    intro p hp; rw [e2] at hp
+    show ((St.register fl ({ s with ready := extra } : St) j).jobs p.2).pc ≠ .none
+    rw [f.1]; exact hR' p hp
+
+theorem stepB2 (fl : Flags) (s : St) (j : Nat) (hI : Inv1 s) (hB : PhB s) (h : B2 s j) :
+    Mono s (s.step fl) ∧ B2 (s.step fl) j := by
+  obtain ⟨hM, hreg, hres⟩ := step_regSch fl s hI hB.1
+  refine ⟨hM, ?_⟩
+  unfold B2
+  rw [hres]
+  rcases h with ⟨e, h⟩ | ⟨o, e, ho, h⟩
+  · left
+    refine ⟨e, fun p hp => ?_⟩
+    rw [hreg] at hp
+    rcases h p hp with h | h
+    · exact Or.inl (hM.pcs _ h)
+    · exact Or.inr h
+  · right
+    exact ⟨o, e, hM.pcs _ ho, fun p hp => by rw [hreg] at hp; exact hM.pcs _ (h p hp)⟩
+
+
+
+/-- event-level: the registry, `eff` and every job dependency point to scheduled jobs. -/
+structure InvH (s : St) : Prop where
+  reg : RegSch s
+  oe : OE s s.n
+
+theorem steps_phaseA2 (fl : Flags) (hg : fl.readyGuarded = true) (j : Nat) :
+    ∀ m k s, InvA s → PhA s j k → RegSch s → OE s j → m ≤ k →
+      InvA (St.steps fl s m) ∧ PhA (St.steps fl s m) j (k - m) ∧ RegSch (St.steps fl s m) ∧ OE (St.steps fl s m) j := by
+  intro m
+  induction m with
+  | zero => intro k s hA hP hR hO _; exact ⟨hA, hP, hR, hO⟩
+  | succ m ih =>
+    intro k s hA hP hR hO hm
+    obtain ⟨k', rfl⟩ : ∃ k', k = k' + 1 := ⟨k - 1, by omega⟩
+    obtain ⟨hM, hR'⟩ := stepA_succ2 fl s j k' hA.ctl hP hR
+    have := ih k' (s.step fl) (step_invA fl hg s hA) (stepA_succ fl s j k' hA.ctl hP) hR' (oe_mono hM hO) (by omega)
+    simpa [St.steps, Nat.add_sub_add_right] using this
+
+theorem steps_succ_eq (fl : Flags) (s : St) (k : Nat) : St.steps fl s (k + 1) = (St.steps fl s k).step fl := by
+  induction k generalizing s with
+  | zero => rfl
+  | succ k ih => simp only [St.steps]; exact ih _
+
+theorem apply_invH (fl : Flags) (hg : fl.readyGuarded = true) (hf : fl.resubmitRegisters = true) (s : St) (ev : Ev)
+    (hok : EvOK s ev) (hA : InvA s) (hB : InvB s) (hS : InvS s) (h : InvH s) : InvH (s.apply fl ev) := by
+  cases ev with
+  | step =>
+    obtain ⟨hM, hreg, _⟩ := step_regSch fl s hA.ctl hB.noreg
+    refine ⟨fun p hp => ?_, ?_⟩
+    · simp only [St.apply] at hp ⊢; rw [hreg] at hp; exact hM.pcs _ (h.reg p hp)
+    · have := oe_mono hM h.oe
+      simp only [St.apply]; rw [hM.n]; exact this
+  | wait => exact ⟨fun p hp => h.reg p hp, ⟨fun d hd => h.oe.effSch d hd, fun j i o hi ho => h.oe.origSch j i o hi ho⟩⟩
+  | deliver k =>
+    simp only [St.apply]; split
+    · exact ⟨fun p hp => h.reg p hp, ⟨fun d hd => h.oe.effSch d hd, fun j i o hi ho => h.oe.origSch j i o hi ho⟩⟩
+    · exact h
+  | submit ident deps code marker =>
+    rw [apply_submit]
+    have hne := fun i (hi : i ≠ s.n) => submitPre_jobs_ne s ident deps code marker i hi
+    -- the pre-state
+    have hR1 : RegSch (submitPre s ident deps code marker) := by
+      intro p hp
+      have hp' : p ∈ s.registry := hp
+      have := hS.regLt p hp'
+      rw [hne _ (by omega)]; exact h.reg p hp'
+    have hO1 : OE (submitPre s ident deps code marker) s.n := by
+      refine ⟨fun d hd => ?_, fun j' i o hi ho => ?_⟩
+      · have := hS.effLe d
+        show ((submitPre s ident deps code marker).jobs (s.eff d)).pc ≠ .none
+        rw [hne _ (by omega)]; exact h.oe.effSch d hd
+      · by_cases hj' : j' = s.n
+        · subst hj'
+          have hlen : ((submitPre s ident deps code marker).jobs s.n).deps.length = deps.length := by
+            simp [submitPre, newJob]
+          rw [hlen] at hi
+          have hnew : (depAt ((submitPre s ident deps code marker).jobs s.n) i).origin =
+              (match deps[i]'hi with | .job d => .job (s.eff d) | o => o) := by
+            simp only [submitPre, newJob, upd_same, depAt, List.getD_eq_getElem?_getD]
+            rw [List.getElem?_eq_getElem (by simpa using hi)]
+            simp only [List.getElem_map, Option.getD_some]
+            split <;> simp_all
+          rw [hnew] at ho
+          have hm := hok _ (List.getElem_mem hi)
+          split at ho
+          · rename_i d hd
+            rw [hd] at hm
+            simp only [Origin.job.injEq] at ho
+            subst ho
+            have := hS.effLe d
+            simp only at hm
+            rw [hne _ (by omega)]; exact h.oe.effSch d hm
+          · rename_i hnj
+            cases hdi : deps[i] with
+            | job d => exact absurd hdi (hnj d)
+            | tok t c => rw [hdi] at ho; cases ho
+        · rw [hne j' hj'] at hi ho
+          have hlt := hS.acyclic j' i o hi ho
+          have hj'n : j' < s.n := by
+            apply Classical.byContradiction
+            intro hge
+            have := hS.blankDeps j' (by omega)
+            rw [this] at hi; simp at hi
+          rw [hne o (by omega)]; exact h.oe.origSch j' i o hi ho
+    have hA1 := submitPre_invA s ident deps code marker hA
+    have hP1 := submitPre_phaseA s ident deps code marker hB
+    obtain ⟨hA2, hP2, hR2, hO2⟩ := steps_phaseA2 fl hg s.n s.ready.length s.ready.length _ hA1 hP1 hR1 hO1 (Nat.le_refl _)
+    rw [Nat.sub_self] at hP2
+    obtain ⟨hM3, hB3⟩ := stepA_zero2 fl _ s.n hP2 hR2
+    have hO3 := oe_mono hM3 hO2
+    rw [← steps_succ_eq] at hB3 hO3
+    have hfin := steps_invA fl hg s.n (s.ready.length + 1) _ ⟨hA1, by simp [submitPre, newJob]⟩
+    have hn3 : (St.steps fl (submitPre s ident deps code marker) (s.ready.length + 1)).n = s.n + 1 := by
+      rw [steps_n]; rfl
+    have hS3 := steps_invS fl (s.ready.length + 1) _ (submitPre_invS s ident deps code marker hok hS)
+    generalize St.steps fl (submitPre s ident deps code marker) (s.ready.length + 1) = s3 at hB3 hO3 hfin hn3 hS3
+    obtain ⟨_, hpc3⟩ := hfin
+    unfold submitPost
+    split
+    · rename_i o' ho'
+      rcases hB3 with ⟨e, _⟩ | ⟨o, e, ho, hreg⟩
+      · rw [e] at ho'; cases ho'
+      · rw [e] at ho'
+        simp only [Option.some.injEq] at ho'
+        subst ho'
+        refine ⟨hreg, ⟨fun d hd => ?_, hO3.origSch⟩⟩
+        simp only [hn3] at hd
+        show (s3.jobs (upd s3.eff s.n o d)).pc ≠ .none
+        simp only [upd]
+        split
+        · exact ho
+        · exact hO3.effSch d (by omega)
+    · rename_i hnot
+      rcases hB3 with ⟨e, hreg⟩ | ⟨o, e, _, _⟩
+      · have hjob : ∀ k, k ≠ s.n → ((({ s3 with eff := upd s3.eff s.n s.n } : St).put s.n
+            { (s3.jobs s.n) with pc := .created } [.start s.n]).jobs k) = s3.jobs k := by
+          intro k hk; simp [upd_ne _ _ hk]
+        refine ⟨fun p hp => ?_, ⟨fun d hd => ?_, fun j' i o' hi ho' => ?_⟩⟩
+        · by_cases hpn : p.2 = s.n
+          · rw [hpn]; simp
+          · rw [hjob _ hpn]
+            rcases hreg p hp with h1 | h1
+            · exact h1
+            · exact absurd h1 hpn
+        · simp only [put_n, hn3] at hd
+          simp only [put_eff, upd]
+          split
+          · simp
+          · rename_i hdn
+            have := hS3.effLe d
+            rw [hjob _ (by omega)]
+            exact hO3.effSch d (by omega)
+        · have hdep : ∀ k m, depAt ((({ s3 with eff := upd s3.eff s.n s.n } : St).put s.n
+              { (s3.jobs s.n) with pc := .created } [.start s.n]).jobs k) m = depAt (s3.jobs k) m := by
+            intro k m
+            by_cases hk : k = s.n
+            · subst hk; simp [depAt]
+            · rw [hjob k hk]
+          have hlen : ∀ k, ((({ s3 with eff := upd s3.eff s.n s.n } : St).put s.n
+              { (s3.jobs s.n) with pc := .created } [.start s.n]).jobs k).deps.length = (s3.jobs k).deps.length := by
+            intro k
+            by_cases hk : k = s.n
+            · subst hk; simp
+            · rw [hjob k hk]
+          rw [hlen] at hi; rw [hdep] at ho'
+          by_cases hon : o' = s.n
+          · rw [hon]; simp
+          · rw [hjob _ hon]; exact hO3.origSch j' i o' hi ho'
+      · exact absurd e (hnot o)
+
+theorem init_invH (totals : List Nat) : InvH (St.init totals) :=
+  ⟨fun p hp => by simp [St.init] at hp, ⟨fun d hd => by simp [St.init] at hd, fun j i o hi => by simp [St.init] at hi⟩⟩
+
+theorem reachable_invH {fl : Flags} (hg : fl.readyGuarded = true) (hf : fl.resubmitRegisters = true)
+    {totals : List Nat} {s : St} (h : Reachable fl totals s) : InvH s := by
+  induction h with
+  | init => exact init_invH totals
+  | next hr hok ih =>
+    exact apply_invH fl hg hf _ _ hok (reachable_invA hg hr) (reachable_invB hg hf hr) (reachable_invS hr) ih
+
+
+
+/-! ## deadlock freedom at quiescence -/
+
+/-- reachability in the sense of `Proofs/SchedCap.lean` (any event list). -/
+theorem reachable_cap {fl : Flags} {totals : List Nat} {s : St} (h : Reachable fl totals s) :
+    XpmVerif.Sched.Reachable fl totals s := by
+  induction h with
+  | init => exact ⟨[], rfl⟩
+  | @next s ev _ _ ih =>
+    obtain ⟨evs, e⟩ := ih
+    exact ⟨evs ++ [ev], by rw [List.foldl_append, ← e]; rfl⟩
+
+/-- no job asks for more units of a token than the token has. -/
+def TokFit (s : St) : Prop :=
+  ∀ j i t c, i < (s.jobs j).deps.length → (depAt (s.jobs j) i).origin = .tok t c → c ≤ s.total t
+
+/-- at quiescence every token is full and nobody holds a lock (from the capacity invariant of C08). -/
+theorem quiescent_tokens_full {fl : Flags} {totals : List Nat} {s : St} (h : Reachable fl totals s)
+    (hr : s.ready = []) (ht : s.threads = []) : (∀ t, s.avail t = s.total t) ∧ ∀ j, (s.jobs j).held = [] := by
+  obtain ⟨N, hi⟩ := (reachable_cap h).inv
+  exact ⟨fun t => (hi.idle_full hr ht t).1, (hi.idle_full hr ht 0).2⟩
+
+/-- invariant B + H at quiescence: a job whose coroutine is alive sleeps on its event, WAITING, with an
+    unsatisfied dependency recorded as WAIT. -/
+theorem quiescent_alive_sleeps {s : St} (hG : InvG s) (hr : s.ready = []) (ht : s.threads = []) (j : Nat)
+    (hk : pcKind (s.jobs j).pc ≠ 0) :
+    (s.jobs j).pc = .evtWait ∧ (s.jobs j).state = .waiting ∧
+    ∃ i, i < (s.jobs j).deps.length ∧ (depAt (s.jobs j) i).cur = .wait := by
+  have hc := hG.e.c.a.ctl j
+  simp only [CtlAt, hr, ht, cStart_nil, cWake_nil, cRes_nil, cThr_nil] at hc
+  obtain ⟨h1, h2, h3, _⟩ := hc
+  have hk2 : pcKind (s.jobs j).pc = 2 := by
+    by_cases e1 : pcKind (s.jobs j).pc = 1
+    · simp [e1] at h1
+    · by_cases e3 : pcKind (s.jobs j).pc = 3
+      · simp [e3] at h3
+      · by_cases e2 : pcKind (s.jobs j).pc = 2
+        · exact e2
+        · exfalso
+          revert hk e1 e2 e3
+          cases (s.jobs j).pc <;> simp [pcKind]
+  have hpc := pcKind_two hk2
+  have hsl : (s.jobs j).sleeping = true := by
+    simp only [hk2, slN] at h2
+    cases hs : (s.jobs j).sleeping
+    · simp [hs] at h2
+    · rfl
+  have hq := (hG.e.q j).1
+  have hev := hq.se hsl
+  have hw := hq.evtClear hpc hev
+  have hJ := hG.e.c.d.recs j
+  have hcnt := hJ.counter (by rw [hw]; intro e; cases e)
+  have hne := hq.waitUnsat hw
+  have hpos : 0 < cntBad (s.jobs j).deps := by
+    have := cntBad_nonneg (s.jobs j).deps
+    omega
+  obtain ⟨i, hi, hc⟩ := cntBad_pos _ hpos
+  refine ⟨hpc, hw, i, hi, ?_⟩
+  have hnf := hq.waitNoFail hw i hi
+  cases hcur : (depAt (s.jobs j) i).cur
+  · rfl
+  · exact absurd hcur hc
+  · exact absurd hcur hnf
+
+/-- deadlock freedom: in a reachable state with nothing queued and no helper thread pending, every scheduled job
+    has returned — provided no job asks for more of a token than exists. -/
+theorem quiescent_final {fl : Flags} (hg : fl.readyGuarded = true) (hf : fl.resubmitRegisters = true)
+    (ha : fl.abortRechecks = true) {totals : List Nat} {s : St} (h : Reachable fl totals s)
+    (hr : s.ready = []) (ht : s.threads = []) (hfit : TokFit s) : AllFinal s := by
+  have hG := reachable_invG hg ha h
+  have hH := reachable_invH hg hf h
+  have hfull := (quiescent_tokens_full h hr ht).1
+  have hnopend : ∀ j i, ¬ Pend s j i := by
+    intro j i hp; unfold Pend at hp; rw [hr] at hp; simp at hp
+  -- strong induction on the job index
+  have key : ∀ j, pcKind (s.jobs j).pc = 0 := by
+    intro j
+    induction j using Nat.strongRecOn with
+    | _ j ih =>
+      apply Classical.byContradiction
+      intro hk
+      obtain ⟨hpc, hw, i, hi, hcur⟩ := quiescent_alive_sleeps hG hr ht j hk
+      have hst : Started s j := by unfold Started; rw [hw]; intro e; cases e
+      have hsc : InScope s (fun _ _ => True) j i := ⟨hst, hi, trivial⟩
+      cases ho : (depAt (s.jobs j) i).origin with
+      | tok t c =>
+        rcases hG.nolost.tokWait j i t c hsc (by simp) ho hcur with hlt | hp
+        · have := hfit j i t c hi ho
+          rw [hfull t] at hlt
+          omega
+        · exact hnopend j i hp
+      | job o =>
+        have holt := hG.e.c.st.acyclic j i o hi ho
+        have hko := ih o holt
+        rcases pcKind_zero.1 hko with hn | ⟨r, hfin⟩
+        · exact hH.oe.origSch j i o hi ho hn
+        · exact hnopend j i (hG.nolost.jobWait j i o r hsc (by simp) ho hcur hfin)
+  intro j _
+  exact pcKind_zero.1 (key j)
+
+
+
+/-! ### `TokFit` from the events -/
+
+/-- a submission asks for at most the total of each token. -/
+def EvFit (s : St) : Ev → Prop
+  | .submit _ deps _ _ => ∀ o ∈ deps, match o with
+      | .tok t c => c ≤ s.total t
+      | _ => True
+  | _ => True
+
+theorem tokFit_frame {s s' : St} {x : Nat} (hF : Frame s s' x) (h : TokFit s) : TokFit s' := by
+  obtain ⟨_, _, _, ft, fj, fc⟩ := hF
+  have hc := sameConst_origin fc
+  intro j i t c hi ho
+  rw [ft]
+  by_cases hj : j = x
+  · subst hj; rw [hc.1] at hi; rw [hc.2] at ho; exact h j i t c hi ho
+  · rw [fj j hj] at hi ho; exact h j i t c hi ho
+
+theorem tokFit_step (fl : Flags) (s : St) (h : TokFit s) : TokFit (s.step fl) := by
+  unfold St.step
+  split
+  · exact h
+  · rename_i cb rest hr
+    exact tokFit_frame (runCb_frame fl ({ s with ready := rest } : St) cb) h
+
+theorem tokFit_apply (fl : Flags) (s : St) (ev : Ev) (hfit : EvFit s ev) (h : TokFit s) : TokFit (s.apply fl ev) := by
+  cases ev with
+  | step => exact tokFit_step fl s h
+  | wait => exact h
+  | deliver k => simp only [St.apply]; split <;> exact h
+  | submit ident deps code marker =>
+    rw [apply_submit]
+    have h1 : TokFit (submitPre s ident deps code marker) := by
+      intro j i t c hi ho
+      by_cases hj : j = s.n
+      · subst hj
+        have hlen : ((submitPre s ident deps code marker).jobs s.n).deps.length = deps.length := by
+          simp [submitPre, newJob]
+        rw [hlen] at hi
+        have hnew : (depAt ((submitPre s ident deps code marker).jobs s.n) i).origin =
+            (match deps[i]'hi with | .job d => .job (s.eff d) | o => o) := by
+          simp only [submitPre, newJob, upd_same, depAt, List.getD_eq_getElem?_getD]
+          rw [List.getElem?_eq_getElem (by simpa using hi)]
+          simp only [List.getElem_map, Option.getD_some]
+          split <;> simp_all
+        rw [hnew] at ho
+        have hm := hfit _ (List.getElem_mem hi)
+        split at ho
+        · cases ho
+        · rw [ho] at hm; exact hm
+      · rw [submitPre_jobs_ne _ _ _ _ _ _ hj] at hi ho
+        exact h j i t c hi ho
+    have h2 := steps_ind TokFit fl (fun s' hs' => tokFit_step fl s' hs') (s.ready.length + 1) _ h1
+    generalize St.steps fl (submitPre s ident deps code marker) (s.ready.length + 1) = s2 at h2
+    unfold submitPost
+    split
+    · exact h2
+    · intro j i t c hi ho
+      by_cases hj : j = s.n
+      · subst hj
+        simp only [put_jobs, upd_same, put_total] at hi ho ⊢
+        exact h2 _ i t c hi ho
+      · simp only [put_jobs, upd_ne _ _ hj, put_total] at hi ho ⊢
+        exact h2 j i t c hi ho
+
+def evFitb (s : St) : Ev → Bool
+  | .submit _ deps _ _ => deps.all (fun o => match o with
+      | .tok t c => decide (c ≤ s.total t)
+      | _ => true)
+  | _ => true
+
+theorem evFitb_sound (s : St) (ev : Ev) (h : evFitb s ev = true) : EvFit s ev := by
+  cases ev with
+  | submit ident deps code marker =>
+    simp only [evFitb, List.all_eq_true] at h
+    intro o ho
+    have := h o ho
+    cases o <;> simp_all
+  | _ => trivial
+
+/-- run a list of events, checking `EvFit` on the way. -/
+def runFit (fl : Flags) : St → List Ev → Bool
+  | _, [] => true
+  | s, ev :: evs => evFitb s ev && runFit fl (s.apply fl ev) evs
+
+theorem tokFit_foldl (fl : Flags) (evs : List Ev) :
+    ∀ s, TokFit s → runFit fl s evs = true → TokFit (evs.foldl (St.apply fl) s) := by
+  induction evs with
+  | nil => intro s h _; exact h
+  | cons ev evs ih =>
+    intro s h hok
+    simp only [runFit, Bool.and_eq_true] at hok
+    exact ih _ (tokFit_apply fl s ev (evFitb_sound s ev hok.1) h) hok.2
+
+theorem tokFit_runEvs (fl : Flags) (totals : List Nat) (evs : List Ev)
+    (h : runFit fl (St.init totals) evs = true) : TokFit (runEvs fl totals evs) :=
+  tokFit_foldl fl evs _ (fun j i t c hi _ => by simp [St.init] at hi) h
 
 
 end XpmVerif.SchedFinal
